@@ -672,18 +672,23 @@ theorem writeLine_inv {q : Quirks} {o : Opts} {s : WShape} {l : RLine} (h : writ
             body := body, items := items } ∧
       ¬ (!isImage o.coordsys && !s.sky && o.radunit ≠ "") = true := by
   unfold writeLine at h
-  cases hi : writeItems q (coordDiffers o s) (writerMeta q s) with
-  | error e => rw [hi] at h; simp at h
-  | ok items =>
-    rw [hi] at h
-    simp only at h
-    split_ifs at h with hc
-    cases hb : writeBody q o s (writerMeta q s) with
-    | error e => rw [hb] at h; simp at h
-    | ok body =>
-      rw [hb] at h
-      simp only [Except.ok.injEq] at h
-      exact ⟨items, body, rfl, rfl, h.symm, hc⟩
+  by_cases hcheck : (coordsysTable.lookup s.coordsys).isNone = true
+  · rw [if_pos hcheck] at h; cases h
+  · rw [if_neg hcheck] at h
+    cases hi : writeItems q (coordDiffers o s) (writerMeta q s) with
+    | error e => rw [hi] at h; cases h
+    | ok items =>
+      rw [hi] at h
+      simp only at h
+      by_cases hc : (!isImage o.coordsys && !s.sky && o.radunit ≠ "") = true
+      · rw [if_pos hc] at h; cases h
+      · rw [if_neg hc] at h
+        cases hb : writeBody q o s (writerMeta q s) with
+        | error e => rw [hb] at h; cases h
+        | ok body =>
+          rw [hb] at h
+          simp only [Except.ok.injEq] at h
+          exact ⟨items, body, rfl, rfl, h.symm, hc⟩
 
 theorem regionShape_inv {q : Quirks} {qn : String → String} {g : AList} {l : RLine} {sh : RShape}
     (h : regionShape q qn g l = .ok sh) :
@@ -903,36 +908,42 @@ def arityOK : Kind → List (ℚ × ℚ) → List ℚ → Option ℚ → Bool
   | .text, [_], [], none => true
   | _, _, _, _ => false
 
-def ClosePt (p : Nat) (a b : ℚ × ℚ) : Prop := Close p a.1 b.1 ∧ Close p a.2 b.2
+def RelPt (R : ℚ → ℚ → Prop) (a b : ℚ × ℚ) : Prop := R a.1 b.1 ∧ R a.2 b.2
 
-/-- the property's geometry clause between a region and what a line denotes. -/
-def GeomClose (p : Nat) (kind : Kind) (pts : List (ℚ × ℚ)) (sizes : List ℚ) (angle : Option ℚ)
+/-- a geometry clause between a region and what a line denotes: `R` number by number, `R2`
+for the full axes of an ellipse. -/
+def GeomRel (R R2 : ℚ → ℚ → Prop) (kind : Kind) (pts : List (ℚ × ℚ)) (sizes : List ℚ) (angle : Option ℚ)
     (pts' : List (ℚ × ℚ)) (sizes' : List ℚ) (angle' : Option ℚ) : Prop :=
-  List.Forall₂ (ClosePt p) pts pts' ∧
-  (if kind = .ellipse then List.Forall₂ (Close2 p) sizes sizes' else List.Forall₂ (Close p) sizes sizes') ∧
+  List.Forall₂ (RelPt R) pts pts' ∧
+  (if kind = .ellipse then List.Forall₂ R2 sizes sizes' else List.Forall₂ R sizes sizes') ∧
   (match angle, angle' with
-    | some x, some y => Close p x y
+    | some x, some y => R x y
     | none, none => True
     | _, _ => False)
 
-theorem poly_closePt (p : Nat) (cu : CUnit) (ps : List (ℚ × ℚ)) :
-    List.Forall₂ (ClosePt p) ps
+/-- the property's geometry clause: half a unit of the precision (ellipse full axes: one unit). -/
+abbrev GeomClose (p : Nat) := GeomRel (Close p) (Close2 p)
+
+theorem poly_closePt (R : ℚ → ℚ → Prop) (p : Nat) (hR : ∀ x, R x (fmtDec p x).val) (cu : CUnit)
+    (ps : List (ℚ × ℚ)) :
+    List.Forall₂ (RelPt R) ps
       ((ps.map fun t => ((Coord.dec (fmtDec p t.1) cu, Coord.dec (fmtDec p t.2) cu) : Pt)).map ptV) := by
   induction ps with
   | nil => exact List.Forall₂.nil
   | cons a r ih =>
     simp only [List.map_cons, ptV, dec_toQ_v]
-    exact List.Forall₂.cons ⟨close_fmt p a.1, close_fmt p a.2⟩ ih
+    exact List.Forall₂.cons ⟨hR a.1, hR a.2⟩ ih
 
 /-- what the writer puts on the line denotes the region's class and its geometry within
 half a unit of the requested precision (ellipse full axes: one unit); the ellipse line
 carries `[height/2, width/2]` and the reader's swap/doubling undoes exactly that; the
 rotation angle is written as it is. -/
-theorem written_geometry (q : Quirks) (o : Opts) (cs : String) (kind : Kind) (sky : Bool)
+theorem written_geometry (R R2 : ℚ → ℚ → Prop) (q : Quirks) (o : Opts)
+    (hR : ∀ x, R x (fmtDec o.prec x).val) (hR2 : ∀ w, R2 w (2 * (fmtDec o.prec (w / 2)).val)) (cs : String) (kind : Kind) (sky : Bool)
     (pts : List (ℚ × ℚ)) (sizes : List ℚ) (angle : Option ℚ) (mt m : AList) (incl : Option MVal)
     (b : Body) (hA : arityOK kind pts sizes angle = true)
     (hw : writeBody q o ⟨cs, kind, sky, flatten pts ++ sizes ++ angle.toList, mt, incl⟩ m = .ok b) :
-    bKind b = kind ∧ GeomClose o.prec kind pts sizes angle (bPts b) (bSizes b) (bAngle b) := by
+    bKind b = kind ∧ GeomRel R R2 kind pts sizes angle (bPts b) (bSizes b) (bAngle b) := by
   unfold arityOK at hA
   split at hA <;> try (exact absurd hA Bool.false_ne_true)
   · rename_i c r
@@ -940,70 +951,70 @@ theorem written_geometry (q : Quirks) (o : Opts) (cs : String) (kind : Kind) (sk
       Except.ok.injEq] at hw
     subst hw
     refine ⟨rfl, ?_, ?_, trivial⟩
-    · exact List.Forall₂.cons ⟨by simpa [ptV, dec_toQ_v] using close_fmt o.prec c.1,
-        by simpa [ptV, dec_toQ_v] using close_fmt o.prec c.2⟩ List.Forall₂.nil
+    · exact List.Forall₂.cons ⟨by simpa [ptV, dec_toQ_v] using hR c.1,
+        by simpa [ptV, dec_toQ_v] using hR c.2⟩ List.Forall₂.nil
     · simp only [reduceCtorEq, if_false, bSizes]
-      exact List.Forall₂.cons (close_fmt _ _) List.Forall₂.nil
+      exact List.Forall₂.cons (hR _) List.Forall₂.nil
   · rename_i c r1 r2
     simp only [writeBody, flatten, List.cons_append, List.nil_append, Option.toList_none, List.append_nil,
       Except.ok.injEq] at hw
     subst hw
     refine ⟨rfl, ?_, ?_, trivial⟩
-    · exact List.Forall₂.cons ⟨by simpa [ptV, dec_toQ_v] using close_fmt o.prec c.1,
-        by simpa [ptV, dec_toQ_v] using close_fmt o.prec c.2⟩ List.Forall₂.nil
+    · exact List.Forall₂.cons ⟨by simpa [ptV, dec_toQ_v] using hR c.1,
+        by simpa [ptV, dec_toQ_v] using hR c.2⟩ List.Forall₂.nil
     · simp only [reduceCtorEq, if_false, bSizes]
-      exact List.Forall₂.cons (close_fmt _ _) (List.Forall₂.cons (close_fmt _ _) List.Forall₂.nil)
+      exact List.Forall₂.cons (hR _) (List.Forall₂.cons (hR _) List.Forall₂.nil)
   · rename_i c w h a
     simp only [writeBody, flatten, List.cons_append, List.nil_append, Option.toList_some,
       Except.ok.injEq] at hw
     subst hw
     refine ⟨rfl, ?_, ?_, ?_⟩
-    · exact List.Forall₂.cons ⟨by simpa [ptV, dec_toQ_v] using close_fmt o.prec c.1,
-        by simpa [ptV, dec_toQ_v] using close_fmt o.prec c.2⟩ List.Forall₂.nil
+    · exact List.Forall₂.cons ⟨by simpa [ptV, dec_toQ_v] using hR c.1,
+        by simpa [ptV, dec_toQ_v] using hR c.2⟩ List.Forall₂.nil
     · simp only [if_true, bSizes]
-      exact List.Forall₂.cons (close2_fmt_half _ _) (List.Forall₂.cons (close2_fmt_half _ _) List.Forall₂.nil)
+      exact List.Forall₂.cons (hR2 _) (List.Forall₂.cons (hR2 _) List.Forall₂.nil)
     · simp only [bAngle]
       have : a / 2 * 2 = a := by ring
-      rw [this]; exact close_fmt _ _
+      rw [this]; exact hR _
   · rename_i c w h a
     simp only [writeBody, flatten, List.cons_append, List.nil_append, Option.toList_some,
       Except.ok.injEq] at hw
     subst hw
     refine ⟨rfl, ?_, ?_, ?_⟩
-    · exact List.Forall₂.cons ⟨by simpa [ptV, dec_toQ_v] using close_fmt o.prec c.1,
-        by simpa [ptV, dec_toQ_v] using close_fmt o.prec c.2⟩ List.Forall₂.nil
+    · exact List.Forall₂.cons ⟨by simpa [ptV, dec_toQ_v] using hR c.1,
+        by simpa [ptV, dec_toQ_v] using hR c.2⟩ List.Forall₂.nil
     · simp only [reduceCtorEq, if_false, bSizes]
-      exact List.Forall₂.cons (close_fmt _ _) (List.Forall₂.cons (close_fmt _ _) List.Forall₂.nil)
-    · simp only [bAngle]; exact close_fmt _ _
+      exact List.Forall₂.cons (hR _) (List.Forall₂.cons (hR _) List.Forall₂.nil)
+    · simp only [bAngle]; exact hR _
   · simp only [writeBody, List.append_nil, Option.toList_none, pairsOf_flatten, Except.ok.injEq] at hw
     subst hw
     refine ⟨rfl, ?_, ?_, trivial⟩
-    · simp only [bPts]; exact poly_closePt _ _ _
+    · simp only [bPts]; exact poly_closePt R _ hR _ _
     · simp only [reduceCtorEq, if_false, bSizes]; exact List.Forall₂.nil
   · rename_i p1 p2
     simp only [writeBody, flatten, List.cons_append, List.nil_append, Option.toList_none, List.append_nil,
       Except.ok.injEq] at hw
     subst hw
     refine ⟨rfl, ?_, ?_, trivial⟩
-    · exact List.Forall₂.cons ⟨by simpa [ptV, dec_toQ_v] using close_fmt o.prec p1.1,
-        by simpa [ptV, dec_toQ_v] using close_fmt o.prec p1.2⟩
-        (List.Forall₂.cons ⟨by simpa [ptV, dec_toQ_v] using close_fmt o.prec p2.1,
-        by simpa [ptV, dec_toQ_v] using close_fmt o.prec p2.2⟩ List.Forall₂.nil)
+    · exact List.Forall₂.cons ⟨by simpa [ptV, dec_toQ_v] using hR p1.1,
+        by simpa [ptV, dec_toQ_v] using hR p1.2⟩
+        (List.Forall₂.cons ⟨by simpa [ptV, dec_toQ_v] using hR p2.1,
+        by simpa [ptV, dec_toQ_v] using hR p2.2⟩ List.Forall₂.nil)
     · simp only [reduceCtorEq, if_false, bSizes]; exact List.Forall₂.nil
   · rename_i c
     simp only [writeBody, flatten, List.cons_append, List.nil_append, Option.toList_none, List.append_nil] at hw
     split at hw <;> simp only [Except.ok.injEq] at hw <;> subst hw <;>
     · refine ⟨rfl, ?_, ?_, trivial⟩
-      · exact List.Forall₂.cons ⟨by simpa [ptV, dec_toQ_v] using close_fmt o.prec c.1,
-          by simpa [ptV, dec_toQ_v] using close_fmt o.prec c.2⟩ List.Forall₂.nil
+      · exact List.Forall₂.cons ⟨by simpa [ptV, dec_toQ_v] using hR c.1,
+          by simpa [ptV, dec_toQ_v] using hR c.2⟩ List.Forall₂.nil
       · simp only [reduceCtorEq, if_false, bSizes]; exact List.Forall₂.nil
   · rename_i c
     simp only [writeBody, flatten, List.cons_append, List.nil_append, Option.toList_none, List.append_nil] at hw
     split at hw <;> simp only [Except.ok.injEq, reduceCtorEq] at hw
     subst hw
     refine ⟨rfl, ?_, ?_, trivial⟩
-    · exact List.Forall₂.cons ⟨by simpa [ptV, dec_toQ_v] using close_fmt o.prec c.1,
-        by simpa [ptV, dec_toQ_v] using close_fmt o.prec c.2⟩ List.Forall₂.nil
+    · exact List.Forall₂.cons ⟨by simpa [ptV, dec_toQ_v] using hR c.1,
+        by simpa [ptV, dec_toQ_v] using hR c.2⟩ List.Forall₂.nil
     · simp only [reduceCtorEq, if_false, bSizes]; exact List.Forall₂.nil
 
 /-! ### metadata: dictionaries have distinct keys -/
@@ -1341,5 +1352,1340 @@ structure RT (q : Quirks) (o : Opts) (r : WReg) (x : RReg) : Prop where
   label : r.kind ≠ .text → ∀ v, (mergedMeta r).get? .label = some v → isScalar v = true → v.pyStr ≠ "" →
              x.mt.get? .label = some (.str v.pyStr)
   text : r.kind = .text → ∀ v, (shapeMeta q r).get? .text = some v → x.text = some v.pyStr
+
+theorem gmeta_get (g : String) (k : Key) (h : k ≠ .coord) : (gmeta g).get? k = none := by
+  simp [gmeta, AList.get?, Ne.symm h]
+
+theorem tokValue_scalar (k : Key) (v : MVal) (hk : isListKey k = false) (hl : k ≠ .label ∨ v = .str "")
+    (hs : isScalar v = true) : pairTok k v = .scalar v.pyStr .none ∧
+      tokValue false k (pairTok k v) = .str v.pyStr := by
+  have hp : pairTok k v = .scalar v.pyStr .none := by
+    unfold pairTok
+    rcases hl with hl | hl
+    · simp only [hl, false_and, if_false]
+      cases v <;> simp_all [isScalar]
+    · subst hl; simp
+  rw [hp]
+  exact ⟨rfl, by simp [tokValue, hk]⟩
+
+theorem written_geometry' (R R2 : ℚ → ℚ → Prop) (q : Quirks) (o : Opts)
+    (hR : ∀ x, R x (fmtDec o.prec x).val) (hR2 : ∀ w, R2 w (2 * (fmtDec o.prec (w / 2)).val))
+    (s : WShape) (kind : Kind)
+    (pts : List (ℚ × ℚ)) (sizes : List ℚ) (angle : Option ℚ) (m : AList)
+    (b : Body) (hk : s.kind = kind) (hc : s.coord = flatten pts ++ sizes ++ angle.toList)
+    (hA : arityOK kind pts sizes angle = true) (hw : writeBody q o s m = .ok b) :
+    bKind b = kind ∧ GeomRel R R2 kind pts sizes angle (bPts b) (bSizes b) (bAngle b) := by
+  obtain ⟨cs, kind', sky, coord, mt, incl⟩ := s
+  simp only at hk hc
+  subst hk; subst hc
+  exact written_geometry R R2 q o hR hR2 cs _ sky pts sizes angle mt m incl b hA hw
+
+/-- only ellipses and rectangles carry an angle. -/
+theorem arity_angle (k : Kind) (p : List (ℚ × ℚ)) (sz : List ℚ) (a : Option ℚ)
+    (h : arityOK k p sz a = true) : a.isSome = true ↔ (k = .ellipse ∨ k = .rectangle) := by
+  unfold arityOK at h
+  split at h <;> simp_all
+
+theorem arity_text (p : List (ℚ × ℚ)) (sz : List ℚ) (a : Option ℚ)
+    (h : arityOK .text p sz a = true) : ∃ c, p = [c] ∧ sz = [] ∧ a = none := by
+  unfold arityOK at h
+  split at h <;> simp_all
+
+/-- the per-region content of the round trip: if the four steps succeed on a region with the
+parameter lists of its class and a dictionary as metadata, the region read back is related
+to it by `RT`. -/
+theorem chain_rt (q : Quirks) (qn : String → String) (o : Opts) (g : String) (r : WReg) (x : RReg)
+    (h : Chain q qn o g r x)
+    (hA : arityOK r.kind r.pts r.sizes r.angle = true) (hn : (keys r.mt).Nodup) : RT q o r x := by
+  obtain ⟨s, l, sh, h1, h2, h3, h4⟩ := h
+  obtain ⟨hs, -, -⟩ := toShape_inv h1
+  have s_cs : s.coordsys = o.coordsys := by rw [hs]
+  have s_kind : s.kind = r.kind := by rw [hs]
+  have s_coord : s.coord = flatten r.pts ++ r.sizes ++ r.angle.toList := by rw [hs]
+  have s_mt : s.mt = shapeMeta q r := by rw [hs]
+  have s_incl : s.incl = r.mt.get? .include := by rw [hs]
+  clear hs h1
+  obtain ⟨items, body, hi, hb, hl, -⟩ := writeLine_inv h2
+  have l_excl : l.excl = shapeExcl s := by rw [hl]
+  have l_ann : l.ann = decide ((writerMeta q s).get? .type = some (.str "ann")) := by rw [hl]
+  have l_body : l.body = body := by rw [hl]
+  have l_items : l.items = items := by rw [hl]
+  clear hl h2
+  obtain ⟨m, k, pts, sz, a, hm, hgm, hsh, -, -⟩ := regionShape_inv h3
+  have sh_kind : sh.kind = k := by rw [hsh]
+  have sh_pts : sh.pts = pts := by rw [hsh]
+  have sh_sizes : sh.sizes = sz := by rw [hsh]
+  have sh_angle : sh.angle = a := by rw [hsh]
+  have sh_mt : sh.mt = (bodyMeta m l.body).erase .coord := by rw [hsh]
+  have sh_incl : sh.incl = !l.excl := by rw [hsh]
+  clear hsh h3
+  obtain ⟨hx, -, -⟩ := toRegion_inv h4
+  clear h4
+  rw [l_body] at hgm sh_mt
+  obtain ⟨hv1, hv2, hv3, hv4⟩ := bodyGeom_vals body k pts sz a hgm
+  obtain ⟨hk, hgeo⟩ := written_geometry' (Close o.prec) (Close2 o.prec) q o (close_fmt o.prec) (close2_fmt_half o.prec)
+    s r.kind r.pts r.sizes r.angle _ body s_kind s_coord hA hb
+  -- dictionaries along the way have distinct keys
+  have hnm : (keys m).Nodup := nodup_lineMeta qn _ m _ hm (by simp [gmeta, keys])
+  have hnsh : (keys sh.mt).Nodup := by rw [sh_mt]; exact nodup_erase _ _ (nodup_bodyMeta _ _ hnm)
+  have hnw : (keys (writerMeta q s)).Nodup := by
+    unfold writerMeta; rw [s_mt]; exact nodup_filter _ _ (nodup_shapeMeta q r hn)
+  have hvw : ∀ p ∈ writerMeta q s, writerValid q p.1 = true := by
+    intro p hp
+    simp only [writerMeta, List.mem_filter] at hp
+    exact hp.2
+  have hcd : coordDiffers o s = none := by simp [coordDiffers, s_cs]
+  rw [hcd] at hi
+  have x_mt : x.mt = (splitMeta sh.mt sh.incl).1 := by rw [hx]; rfl
+  have x_vis : x.vis = (splitMeta sh.mt sh.incl).2 := by rw [hx]; rfl
+  have hsp2 := fun kk => (splitMeta_get sh.mt hnsh sh.incl kk).1
+  have hsp_incl := (splitMeta_get sh.mt hnsh sh.incl Key.type).2.1
+  have hsp1 := fun kk => (splitMeta_get sh.mt hnsh sh.incl kk).2.2.1
+  have hsp_label := (splitMeta_get sh.mt hnsh sh.incl Key.type).2.2.2
+  have wm_get : ∀ kk, kk ≠ .label → kk ≠ .text → writerValid q kk = true →
+      (writerMeta q s).get? kk = (mergedMeta r).get? kk := by
+    intro kk n1 n2 hv
+    unfold writerMeta
+    rw [get?_filterKeys s.mt (writerValid q) kk, hv, if_pos rfl, s_mt, get?_shapeMeta_ne q r kk n1 n2]
+  -- the value the reader's final meta holds for a key that only the pairs can set
+  have path : ∀ kk, kk ≠ .include → kk ≠ .type → kk ≠ .range → kk ≠ .coord → kk ≠ .symbol → kk ≠ .text →
+      kk ≠ .labeloff → kk ≠ .corr →
+      sh.mt.get? kk = assigned false kk (pairItems q (writerMeta q s)) := by
+    intro kk n1 n2 n3 n4 n5 n6 n7 n8
+    rw [sh_mt, get?_erase, if_neg (Ne.symm n4), get?_bodyMeta_ne _ _ _ n5 n6,
+      global_default_inline_override qn _ m _ hm kk n1 n2 n3, gmeta_get g kk n4, l_items]
+    rw [assigned_written q _ items hi kk n7 n3 n8]
+    cases assigned false kk (pairItems q _) <;> rfl
+  refine ⟨?_, ?_, ?_, ?_, ?_, ?_, ?_⟩
+  · -- kind
+    rw [hx]; show sh.kind = r.kind
+    rw [sh_kind, hv1, hk]
+  · -- geometry
+    obtain ⟨bv1, bv2⟩ := buildRegion_vals sh
+    rw [hx, bv1, bv2, sh_pts, sh_sizes, hv2, hv3]
+    obtain ⟨g1, g2, g3⟩ := hgeo
+    refine ⟨g1, g2, ?_⟩
+    have har := arity_angle _ _ _ _ hA
+    have hxa : (buildRegion sh).angle.map (·.v) = bAngle body := by
+      simp only [buildRegion, sh_kind, sh_angle, hv1, hk]
+      rw [← hv4]
+      rw [← hv4] at g3
+      by_cases hke : r.kind = .ellipse ∨ r.kind = .rectangle
+      · rw [if_pos hke]
+        cases a with
+        | some qa => rfl
+        | none =>
+          have := har.mpr hke
+          cases hra : r.angle with
+          | none => rw [hra] at this; simp at this
+          | some ra => rw [hra] at g3; simp at g3
+      · rw [if_neg hke]
+        cases a with
+        | some qa =>
+          cases hra : r.angle with
+          | none => rw [hra] at g3; simp at g3
+          | some ra => exact absurd (har.mp (by rw [hra]; rfl)) hke
+        | none => rfl
+    rw [hxa]; exact g3
+  · -- include sense
+    rw [x_mt, hsp_incl, sh_incl, l_excl]
+    simp only [shapeExcl, wExcl, s_incl]
+    cases r.mt.get? .include <;> rfl
+  · -- annotation
+    have ht : sh.mt.get? .type = some (.str (if l.ann then "ann" else "reg")) := by
+      rw [sh_mt, get?_erase, if_neg (by decide), get?_bodyMeta_ne _ _ _ (by decide) (by decide)]
+      exact (prefix_rules qn _ m _ hm).2
+    rw [x_mt, hsp1 .type rfl (by decide) (by decide), ht, l_ann,
+      wm_get .type (by decide) (by decide) rfl]
+    unfold wAnn
+    by_cases hh : (mergedMeta r).get? .type = some (.str "ann") <;> simp [hh]
+  · -- scalar CRTF keys
+    intro kk v hsk hget hsc hne
+    have hkk : kk ≠ .include ∧ kk ≠ .type ∧ kk ≠ .range ∧ kk ≠ .coord ∧ kk ≠ .symbol ∧ kk ≠ .text ∧
+        kk ≠ .labeloff ∧ kk ≠ .corr ∧ kk ≠ .label ∧ isListKey kk = false ∧ writerSkip q kk = false ∧
+        writerValid q kk = true := by
+      cases kk <;> simp_all [scalarKey, isListKey, writerSkip, writerValid]
+    obtain ⟨n1, n2, n3, n4, n5, n6, n7, n8, n9, nl, nsk, nval⟩ := hkk
+    have hw : (writerMeta q s).get? kk = some v := by rw [wm_get kk n9 n6 nval, hget]
+    have hp := path kk n1 n2 n3 n4 n5 n6 n7 n8
+    rw [assigned_pairItems q _ kk hnw hvw, nsk, hw] at hp
+    obtain ⟨t1, t2⟩ := tokValue_scalar kk v nl (Or.inl n9) hsc
+    rw [t1] at t2
+    simp only [Bool.false_eq_true, if_false, t1, t2, MTok.isEmptyScalar, hne, decide_false] at hp
+    by_cases hz : isViz kk
+    · simp only [hz, if_true]
+      rw [x_vis, hsp2 kk, if_pos hz, hp]
+    · simp only [hz, Bool.false_eq_true, if_false]
+      rw [x_mt, hsp1 kk (by simpa using hz) n1 n9, hp]
+  · -- label
+    intro hkt v hget hsc hne
+    have hw : (writerMeta q s).get? .label = some v := by
+      unfold writerMeta
+      rw [get?_filterKeys s.mt (writerValid q) .label, s_mt]
+      simp only [writerValid, if_true]
+      unfold shapeMeta
+      rw [if_neg hkt]; exact hget
+    have hp := path .label (by decide) (by decide) (by decide) (by decide) (by decide) (by decide) (by decide) (by decide)
+    rw [assigned_pairItems q _ .label hnw hvw, hw] at hp
+    have hvne : v ≠ .str "" := by intro e; subst e; simp [MVal.pyStr] at hne
+    have hpt : pairTok .label v = .scalar v.pyStr .single := by simp [pairTok, hvne]
+    simp only [writerSkip, Bool.false_eq_true, if_false, hpt, MTok.isEmptyScalar, hne, decide_false,
+      tokValue, isListKey] at hp
+    rw [x_mt]
+    exact hsp_label _ hp
+  · -- text
+    intro hkt v hget
+    have hw : (writerMeta q s).get? .text = some v := by
+      unfold writerMeta
+      rw [get?_filterKeys s.mt (writerValid q) .text, s_mt]
+      simp [writerValid, hget]
+    have hA' := hA
+    rw [hkt] at hA'
+    obtain ⟨c, hpts, hsz, hang'⟩ := arity_text _ _ _ hA'
+    rw [hpts, hsz, hang'] at s_coord
+    have hb' := hb
+    unfold writeBody at hb'
+    rw [s_kind, hkt, s_coord] at hb'
+    simp only [flatten, List.cons_append, List.nil_append, Option.toList_none, List.append_nil, hw,
+      Except.ok.injEq] at hb'
+    subst hb'
+    rw [hx]
+    show (if sh.kind = .text then
+                (match sh.mt.get? .text with | some (.str t) => some t | _ => some "")
+              else none) = some v.pyStr
+    rw [sh_kind, hv1]
+    simp only [bKind, if_true, sh_mt, bodyMeta]
+    rw [get?_erase, if_neg (by decide), get?_set_self]
+
+/-- the geometry part of the per-region chain for ANY pair of relations that hold between a
+number and its printed decimal (used twice: closeness, and exactness on the grid). -/
+theorem chain_geom (R R2 : ℚ → ℚ → Prop) (q : Quirks) (qn : String → String) (o : Opts) (g : String)
+    (hR : ∀ x, R x (fmtDec o.prec x).val) (hR2 : ∀ w, R2 w (2 * (fmtDec o.prec (w / 2)).val))
+    (r : WReg) (x : RReg) (h : Chain q qn o g r x)
+    (hA : arityOK r.kind r.pts r.sizes r.angle = true) :
+    x.kind = r.kind ∧
+    GeomRel R R2 r.kind r.pts r.sizes r.angle
+      (x.pts.map fun p => (p.1.v, p.2.v)) (x.sizes.map (·.v)) (x.angle.map (·.v)) := by
+  obtain ⟨s, l, sh, h1, h2, h3, h4⟩ := h
+  obtain ⟨hs, -, -⟩ := toShape_inv h1
+  have s_kind : s.kind = r.kind := by rw [hs]
+  have s_coord : s.coord = flatten r.pts ++ r.sizes ++ r.angle.toList := by rw [hs]
+  clear hs h1
+  obtain ⟨items, body, hi, hb, hl, -⟩ := writeLine_inv h2
+  have l_body : l.body = body := by rw [hl]
+  clear hl h2
+  obtain ⟨m, k, pts, sz, a, hm, hgm, hsh, -, -⟩ := regionShape_inv h3
+  have sh_kind : sh.kind = k := by rw [hsh]
+  have sh_pts : sh.pts = pts := by rw [hsh]
+  have sh_sizes : sh.sizes = sz := by rw [hsh]
+  have sh_angle : sh.angle = a := by rw [hsh]
+  clear hsh h3
+  obtain ⟨hx, -, -⟩ := toRegion_inv h4
+  clear h4
+  rw [l_body] at hgm
+  obtain ⟨hv1, hv2, hv3, hv4⟩ := bodyGeom_vals body k pts sz a hgm
+  obtain ⟨hk, hgeo⟩ := written_geometry' R R2 q o hR hR2 s r.kind r.pts r.sizes r.angle _ body s_kind s_coord hA hb
+  refine ⟨by rw [hx]; show sh.kind = r.kind; rw [sh_kind, hv1, hk], ?_⟩
+  obtain ⟨bv1, bv2⟩ := buildRegion_vals sh
+  rw [hx, bv1, bv2, sh_pts, sh_sizes, hv2, hv3]
+  obtain ⟨g1, g2, g3⟩ := hgeo
+  refine ⟨g1, g2, ?_⟩
+  have har := arity_angle _ _ _ _ hA
+  have hxa : (buildRegion sh).angle.map (·.v) = bAngle body := by
+    simp only [buildRegion, sh_kind, sh_angle, hv1, hk]
+    rw [← hv4]
+    rw [← hv4] at g3
+    by_cases hke : r.kind = .ellipse ∨ r.kind = .rectangle
+    · rw [if_pos hke]
+      cases a with
+      | some qa => rfl
+      | none =>
+        have := har.mpr hke
+        cases hra : r.angle with
+        | none => rw [hra] at this; simp at this
+        | some ra => rw [hra] at g3; simp at g3
+    · rw [if_neg hke]
+      cases a with
+      | some qa =>
+        cases hra : r.angle with
+        | none => rw [hra] at g3; simp at g3
+        | some ra => exact absurd (har.mp (by rw [hra]; rfl)) hke
+      | none => rfl
+  rw [hxa]; exact g3
+
+/-! ## 6. `crtf_roundtrip` -/
+
+/-- a region as a Python object can be: the parameter lists of its class, a dictionary as meta. -/
+def WellFormed (r : WReg) : Prop :=
+  arityOK r.kind r.pts r.sizes r.angle = true ∧ (keys r.mt).Nodup
+
+instance (r : WReg) : Decidable (WellFormed r) := by unfold WellFormed; infer_instance
+
+/-- `crtf_roundtrip` (what comes back): for a list of ANY length, whenever the serialisation
+is accepted by the reader, it yields exactly one region per input region, in order, of the
+same class, with every coordinate/size/angle within half a unit of the `fmt` precision
+(ellipse full axes: one unit = half a unit on the stored semi-axis), the same
+include/exclude sense, the same annotation type, the same label, the scalar CRTF metadata
+(as text), and for a text region the string the writer took for it. -/
+theorem crtf_roundtrip (q : Quirks) (qn : String → String) (o : Opts) (rs : List WReg)
+    (ls : List SrcLine) (gs : List RReg) (hw : ∀ r ∈ rs, WellFormed r)
+    (hs : serialize q o rs = .ok ls) (hp : parse q qn ls = .ok gs) :
+    List.Forall₂ (RT q o) rs gs := by
+  obtain ⟨g, -, hc⟩ := roundtrip_list q qn o rs ls gs hs hp
+  have : ∀ (l1 : List WReg) (l2 : List RReg), (∀ r ∈ l1, WellFormed r) →
+      List.Forall₂ (Chain q qn o g) l1 l2 → List.Forall₂ (RT q o) l1 l2 := by
+    intro l1 l2 hwf hch
+    induction hch with
+    | nil => exact List.Forall₂.nil
+    | cons hab _ ih =>
+      refine List.Forall₂.cons ?_ (ih fun r hr => hwf r (List.mem_cons_of_mem _ hr))
+      obtain ⟨h1, h2⟩ := hwf _ List.mem_cons_self
+      exact chain_rt q qn o g _ _ hab h1 h2
+  exact this rs gs hw hc
+
+/-! ### the string of a text region (F7) -/
+
+/-- full-strength clause: the string written for a text region is `region.text`. -/
+def text_preserved_full (q : Quirks) : Prop :=
+  ∀ r : WReg, r.kind = .text → (shapeMeta q r).get? .text = some (.str r.text)
+
+/-- with the repaired `_to_shape_list` the clause holds for every region … -/
+theorem text_preserved_fixed (q : Quirks) (h : q.textFromMeta = false) : text_preserved_full q := by
+  intro r hk
+  unfold shapeMeta
+  rw [if_pos hk]
+  simp only [h, Bool.false_eq_true, if_false]
+  exact get?_set_self _ _ _
+
+/-- … and the current code refutes it: `TextSkyRegion(c, 'a')` is written as `text[[…], '']`. -/
+theorem text_preserved_refuted_F7 : ¬ text_preserved_full Quirks.current := by
+  intro h
+  have := h { kind := .text, sky := true, pts := [(1, 2)], sizes := [], angle := none, text := "a",
+              mt := [], vis := [] } rfl
+  revert this
+  decide +kernel
+
+/-- partial: under the current code the string survives exactly when the metadata already
+carries it (`meta['text']`, else `meta['label']`) — e.g. every region that was itself parsed. -/
+theorem text_preserved_partial (q : Quirks) (r : WReg) (hk : r.kind = .text)
+    (hg : q.textFromMeta = false ∨
+      (((mergedMeta r).erase .label).get? .text).getD (((mergedMeta r).get? .label).getD (.str "")) = .str r.text) :
+    (shapeMeta q r).get? .text = some (.str r.text) := by
+  rcases hg with hg | hg
+  · exact text_preserved_fixed q hg r hk
+  · unfold shapeMeta
+    rw [if_pos hk]
+    split_ifs
+    · rw [get?_set_self, hg]
+    · exact get?_set_self _ _ _
+    · exact get?_set_self _ _ _
+
+/-- a parsed text region carries its string under `text` and `label`: it meets the hypothesis. -/
+def parsedText : WReg :=
+  { kind := .text, sky := true, pts := [(1, 2)], sizes := [], angle := none, text := "a",
+    mt := [(.text, .str "a"), (.label, .str "a")], vis := [] }
+
+example : (((mergedMeta parsedText).erase .label).get? .text).getD
+    (((mergedMeta parsedText).get? .label).getD (.str "")) = .str parsedText.text := by
+  decide +kernel
+
+/-! ### serialising the same objects twice (F6) -/
+
+/-- full-strength clause: serialising does not change the caller's regions (so a second
+serialisation of the same objects gives the same text). -/
+def serialize_pure_full (q : Quirks) : Prop := ∀ rs : List WReg, afterSerialize q rs = rs
+
+theorem serialize_pure_fixed (q : Quirks) (h : q.popInclude = false) : serialize_pure_full q := by
+  intro rs
+  unfold afterSerialize afterShape
+  simp [h]
+
+/-- the current code pops `include` from the caller's metadata … -/
+theorem serialize_pure_refuted_F6 : ¬ serialize_pure_full Quirks.current := by
+  intro h
+  have := h [{ kind := .circle, sky := true, pts := [(1, 2)], sizes := [1], angle := none, text := "",
+               mt := [(.include, .bool false)], vis := [] }]
+  revert this
+  decide +kernel
+
+/-- … so that an EXCLUDED region is written as included the second time: for every excluded
+region, the shape made from the mutated object has lost the exclusion. -/
+theorem second_serialisation_included (cs : String) (r : WReg) (s : WShape)
+    (h : toShape Quirks.current cs (afterShape Quirks.current r) = .ok s) : shapeExcl s = false := by
+  obtain ⟨hs, -, -⟩ := toShape_inv h
+  rw [hs]
+  simp only [shapeExcl, afterShape, Quirks.current, if_true]
+  rw [get?_erase]
+  simp
+
+/-- partial: a region whose metadata has no `include` key is left untouched. -/
+theorem serialize_pure_partial (q : Quirks) (rs : List WReg)
+    (h : q.popInclude = false ∨ ∀ r ∈ rs, Key.include ∉ keys r.mt) : afterSerialize q rs = rs := by
+  rcases h with h | h
+  · exact serialize_pure_fixed q h rs
+  · unfold afterSerialize
+    have : ∀ r ∈ rs, afterShape q r = r := by
+      intro r hr
+      unfold afterShape
+      split_ifs
+      · have hk := h r hr
+        have : r.mt.erase .include = r.mt := by
+          unfold AList.erase
+          rw [List.filter_eq_self]
+          intro p hp
+          simp only [ne_eq, decide_eq_true_eq]
+          intro e
+          exact hk (by rw [← e]; exact List.mem_map_of_mem (f := Prod.fst) hp)
+        rw [this]
+      · rfl
+    exact (List.map_congr_left this).trans (List.map_id rs)
+
+example : Key.include ∉ keys ([(.label, .str "a")] : AList) := by decide
+
+/-! ## 7. the serialisation of a representable region IS accepted -/
+
+/-- an item the reader accepts. -/
+def itemOK : MItem → Prop
+  | .empty => True
+  | .pair k t => t.isEmptyScalar = true ∨ keyOk false (itemKey false k) = true
+
+theorem readItems_ok (items : List MItem) (h : ∀ it ∈ items, itemOK it) (m : AList) :
+    ∃ m', readItems false m items = .ok m' := by
+  induction items generalizing m with
+  | nil => exact ⟨m, rfl⟩
+  | cons it r ih =>
+    have hr : ∀ it ∈ r, itemOK it := fun i hi => h i (List.mem_cons_of_mem _ hi)
+    have h0 := h it List.mem_cons_self
+    simp only [readItems]
+    cases it with
+    | empty => simp only [readItem, bind, Except.bind]; exact ih hr m
+    | pair k t =>
+      simp only [readItem]
+      by_cases he : t.isEmptyScalar
+      · simp only [he, if_true, bind, Except.bind]; exact ih hr m
+      · simp only [he, Bool.false_eq_true, if_false]
+        have : keyOk false (itemKey false k) = true := by
+          rcases h0 with h0 | h0
+          · exact absurd h0 he
+          · exact h0
+        simp only [this, if_true, bind, Except.bind]
+        exact ih hr _
+
+/-- every key the writer emits as a pair is a key the reader accepts inline. -/
+theorem keyOk_of_written (q : Quirks) (k : Key) (h1 : writerValid q k = true) (h2 : writerSkip q k = false) :
+    keyOk false k = true := by
+  cases k <;> simp_all [writerValid, writerSkip, keyOk, readerGlobalKey]
+
+theorem pairItems_ok (q : Quirks) (m : AList) (hv : ∀ p ∈ m, writerValid q p.1 = true) :
+    ∀ it ∈ pairItems q m, itemOK it := by
+  intro it hit
+  simp only [pairItems, List.mem_map, List.mem_filter] at hit
+  obtain ⟨p, ⟨hp, hs⟩, rfl⟩ := hit
+  right
+  rw [itemKey_toString q p.1 (hv p hp)]
+  exact keyOk_of_written q p.1 (hv p hp) (by simpa using hs)
+
+theorem tailItems_ok_items (q : Quirks) (m : AList) (tail : List MItem) (h : tailItems q m = .ok tail) :
+    ∀ it ∈ tail, itemOK it := by
+  have k1 : keyOk false (itemKey false "labeloff") = true := by decide +kernel
+  have k2 : keyOk false (itemKey false "range") = true := by decide +kernel
+  have k3 : keyOk false (itemKey false "corr") = true := by decide +kernel
+  unfold tailItems at h
+  split at h
+  case h_1 t1 t2 t3 e1 e2 e3 =>
+    simp only [Except.ok.injEq] at h
+    subst h
+    intro it hit
+    simp only [List.mem_append] at hit
+    rcases hit with (hit | hit) | hit
+    · rcases listItem_inv _ _ _ _ e1 with rfl | ⟨tok, rfl⟩
+      · simp at hit
+      · simp only [List.mem_singleton] at hit; subst hit; exact Or.inr k1
+    · rcases listItem_inv _ _ _ _ e2 with rfl | ⟨tok, rfl⟩
+      · simp at hit
+      · simp only [List.mem_singleton] at hit; subst hit; exact Or.inr k2
+    · rcases listItem_inv _ _ _ _ e3 with rfl | ⟨tok, rfl⟩
+      · simp at hit
+      · simp only [List.mem_singleton] at hit; subst hit; exact Or.inr k3
+  all_goals cases h
+
+theorem writeItems_ok_items (q : Quirks) (m : AList) (items : List MItem)
+    (hv : ∀ p ∈ m, writerValid q p.1 = true) (h : writeItems q none m = .ok items) :
+    ∀ it ∈ items, itemOK it := by
+  unfold writeItems at h
+  cases ht : tailItems q m with
+  | error e => rw [ht] at h; cases h
+  | ok tail =>
+    rw [ht] at h
+    simp only [Except.ok.injEq, headItems] at h
+    subst h
+    intro it hit
+    unfold assemble at hit
+    split_ifs at hit
+    · rcases List.mem_cons.mp hit with rfl | hit
+      · trivial
+      · exact tailItems_ok_items q m tail ht it hit
+    · rcases List.mem_append.mp hit with hit | hit
+      · exact pairItems_ok q m hv it hit
+      · exact tailItems_ok_items q m tail ht it hit
+
+/-- a list-valued key holds a list. -/
+def listOK : Option MVal → Bool
+  | some (.strs _) => true
+  | some (.ints _) => true
+  | none => true
+  | _ => false
+
+theorem listItem_ok (n : String) (sp : Bool) (ov : Option MVal) (h : listOK ov = true) :
+    ∃ t, listItem n sp ov = .ok t := by
+  unfold listItem
+  cases ov with
+  | none => exact ⟨[], rfl⟩
+  | some v => cases v <;> simp_all [listOK, listTok]
+
+theorem tailItems_ok (q : Quirks) (m : AList) (h1 : listOK (m.get? .labeloff) = true)
+    (h2 : listOK (m.get? .range) = true) (h3 : listOK (m.get? .corr) = true) :
+    ∃ t, tailItems q m = .ok t := by
+  have hl : listOK (if q.labeloffRepr then none else m.get? .labeloff) = true := by
+    split_ifs
+    · rfl
+    · exact h1
+  obtain ⟨t1, e1⟩ := listItem_ok "labeloff" false _ hl
+  obtain ⟨t2, e2⟩ := listItem_ok "range" true _ h2
+  obtain ⟨t3, e3⟩ := listItem_ok "corr" false _ h3
+  exact ⟨t1 ++ t2 ++ t3, by unfold tailItems; rw [e1, e2, e3]⟩
+
+/-- the option sets of the property: a frame of `valid_coordsys` with a length unit that
+makes sense for it (`fmt` is any `'.Nf'`). -/
+def optPairs : List (String × String) :=
+  [("image", "deg"), ("image", "pix")] ++
+  (["fk5", "fk4", "galactic", "geocentrictrueecliptic", "supergalactic", "icrs"].flatMap fun cs =>
+    ["deg", "arcmin", "arcsec", "rad"].map fun ru => (cs, ru))
+
+def optsOK (o : Opts) : Prop := (o.coordsys, o.radunit) ∈ optPairs
+
+instance (o : Opts) : Decidable (optsOK o) := by unfold optsOK; infer_instance
+
+/-- facts about an admissible option pair (all decidable; the table is decided completely). -/
+def optFacts (cs ru : String) : Bool :=
+  (coordsysTable.lookup cs.toLower == coordsysTable.lookup cs) &&
+  (match coordsysTable.lookup cs with
+    | some g => frameMap g.toLower == cs
+    | none => false) &&
+  (isImage cs == (cs == "image")) &&
+  !(ru == "arcsec" && cs.toLower == "image") &&
+  ([LUnit.deg, .arcmin, .dq, .rad, .pix].contains (radUnit ru)) &&
+  (cs == "image" || (skyFrames.contains cs && radUnit ru != .pix)) &&
+  (isQuoteUnit (radUnit ru) == (ru == "arcsec")) && (ru != "") && (cs.toLower == cs)
+
+theorem optFacts_all : ∀ pr ∈ optPairs, optFacts pr.1 pr.2 = true := by decide +kernel
+
+/-- the unit a written length is read with. -/
+def luU : LUnit → U
+  | .deg => .deg | .rad => .rad | .arcmin => .arcmin | .arcsec => .arcsec | .dq => .arcsec
+  | .sq => .arcmin | _ => .none
+
+theorem toQ_of_unit (d : Dec) (lu : LUnit) (h : [LUnit.deg, .arcmin, .dq, .rad, .pix].contains lu = true) :
+    Len.toQ ⟨d, lu⟩ = .ok ⟨d.val, luU lu, false⟩ := by
+  cases lu <;> simp_all [Len.toQ, luU]
+
+theorem toDeg_lt (u : U) (a b : ℚ) (g1 g2 : Bool) (h : a < b) : Q.toDeg ⟨a, u, g1⟩ < Q.toDeg ⟨b, u, g2⟩ := by
+  cases u <;> simp only [Q.toDeg]
+  · exact h
+  · have : (0 : ℚ) < radDeg := by unfold radDeg; norm_num
+    exact mul_lt_mul_of_pos_right h this
+  · linarith
+  · linarith
+  · linarith
+  · exact h
+
+theorem fmt_pos (p : Nat) (x : ℚ) (h1 : 0 < x) (h2 : 0 < (fmtDec p x).mant) : 0 < (fmtDec p x).val := by
+  have hp : (0 : ℚ) < 10 ^ p := by positivity
+  unfold Dec.val
+  have hneg : (fmtDec p x).neg = false := by simp [fmtDec, not_lt.mpr h1.le]
+  rw [hneg]
+  simp only [Bool.false_eq_true, if_false]
+  have : (0 : ℚ) < ((fmtDec p x).mant : ℚ) := by exact_mod_cast h2
+  exact div_pos this (by have : (fmtDec p x).scale = p := rfl; rw [this]; exact hp)
+
+/-! checks of `to_region` -/
+
+theorem checkCoords_pixel (sh : RShape) (hp : isImage sh.coordsys = true)
+    (h : (sh.kind = .polygon ∨ sh.kind = .line) → ∀ p ∈ sh.pts, p.1.u = .none ∧ p.2.u = .none) :
+    checkCoords sh = .ok () := by
+  unfold checkCoords
+  rw [if_pos hp]
+  by_cases hk : sh.kind = .polygon ∨ sh.kind = .line
+  · have : sh.pts.any (fun p => p.1.u ≠ .none || p.2.u ≠ .none) = false := by
+      rw [List.any_eq_false]
+      intro p hpp
+      have := h hk p hpp
+      simp [this.1, this.2]
+    rw [if_neg (fun hc => by rw [this] at hc; exact absurd hc.2 (by simp))]
+  · rw [if_neg (fun hc => hk hc.1)]
+
+theorem checkCoords_sky (sh : RShape) (hp : isImage sh.coordsys = false) (hne : sh.pts ≠ [])
+    (hall : ∀ p ∈ sh.pts, p.1.ang = true ∧ p.2.ang = true ∧ p.2.u = .deg ∧ |p.2.v| ≤ 90)
+    (hf : skyFrames.contains sh.coordsys = true) : checkCoords sh = .ok () := by
+  unfold checkCoords
+  have hfil : sh.pts.filter (fun p => p.1.ang && p.2.ang) = sh.pts := by
+    rw [List.filter_eq_self]
+    intro p hpp
+    have := hall p hpp
+    simp [this.1, this.2.1]
+  rw [if_neg (by simp [hp]), hfil]
+  rw [if_neg (by simpa using hne), if_neg (by simp)]
+  have hlat : sh.pts.any (fun p => decide (90 < |p.2.toDeg|)) = false := by
+    rw [List.any_eq_false]
+    intro p hpp
+    obtain ⟨-, -, hu, hv⟩ := hall p hpp
+    have : p.2.toDeg = p.2.v := by
+      unfold Q.toDeg; rw [hu]
+    rw [this]
+    simp [not_lt.mpr hv]
+  rw [if_neg (by rw [hlat]; simp), if_neg (by rw [hf]; simp)]
+
+theorem checkSizes_ok (sh : RShape) (h1 : ∀ a ∈ sh.sizes, sizeOk (!isImage sh.coordsys) a = true)
+    (h2 : sh.kind = .circleannulus → annulusOk (isImage sh.coordsys) sh.sizes = true)
+    (h3 : ∀ a, sh.angle = some a → angleOk a = true) : checkSizes sh = .ok () := by
+  unfold checkSizes
+  have e1 : sh.sizes.all (sizeOk (!isImage sh.coordsys)) = true := List.all_eq_true.mpr h1
+  rw [if_neg (by simp [e1])]
+  rw [if_neg (by
+    by_cases hk : sh.kind = .circleannulus
+    · simp [h2 hk]
+    · simp [hk])]
+  rw [if_neg (by
+    cases ha : sh.angle with
+    | none => simp
+    | some a => simp [h3 a ha])]
+
+theorem toRegion_ok (sh : RShape) (h1 : checkCoords sh = .ok ()) (h2 : checkSizes sh = .ok ()) :
+    toRegion sh = .ok (buildRegion sh) := by
+  unfold toRegion; rw [h1, h2]
+
+/-! the written body, read back (explicit units, for the reader's checks) -/
+
+def cuOf (q : Quirks) (o : Opts) : CUnit := if !q.pixAsDeg && isImage o.coordsys then .pix else .deg
+
+def cQ (q : Quirks) (o : Opts) (x : ℚ) : Q := Coord.toQ (.dec (fmtDec o.prec x) (cuOf q o))
+
+def symbolOK (q : Quirks) : Option MVal → Bool
+  | some v => validSymbols.contains v.pyStr
+  | none => !q.pointUnreadable
+
+def sizesW (kind : Kind) (sizes : List ℚ) : List ℚ :=
+  if kind = .ellipse then sizes.map (· / 2) else sizes
+
+theorem written_read (q : Quirks) (o : Opts) (cs : String) (kind : Kind) (sky : Bool)
+    (pts : List (ℚ × ℚ)) (sizes : List ℚ) (angle : Option ℚ) (mt m : AList) (incl : Option MVal)
+    (hA : arityOK kind pts sizes angle = true)
+    (hu : [LUnit.deg, .arcmin, .dq, .rad, .pix].contains (radUnit o.radunit) = true)
+    (htext : kind = .text → ∃ v, m.get? .text = some v)
+    (hsym : kind = .point → symbolOK q (m.get? .symbol) = true)
+    (hpoly : kind = .polygon → 3 ≤ pts.length) :
+    ∃ body ptsQ szQ angQ,
+      writeBody q o ⟨cs, kind, sky, flatten pts ++ sizes ++ angle.toList, mt, incl⟩ m = .ok body ∧
+      bodyGeom body = .ok (kind, ptsQ, szQ, angQ) ∧
+      ptsQ = pts.map (fun p => (cQ q o p.1, cQ q o p.2)) ∧
+      (∀ a ∈ szQ, a.u = luU (radUnit o.radunit) ∧
+        ∃ s ∈ sizesW kind sizes, a.v = (fmtDec o.prec s).val ∨ a.v = 2 * (fmtDec o.prec s).val) ∧
+      (kind = .circleannulus → ∃ a b, sizes = [a, b] ∧
+        szQ = [⟨(fmtDec o.prec a).val, luU (radUnit o.radunit), false⟩,
+               ⟨(fmtDec o.prec b).val, luU (radUnit o.radunit), false⟩]) ∧
+      (∀ a, angQ = some a → a.u = .deg) ∧
+      (isPointBody body = true → q.pointUnreadable = false) ∧
+      (body.lenPairs.any (fun p => isQuoteUnit p.1.u || isQuoteUnit p.2.u) = true →
+        isQuoteUnit (radUnit o.radunit) = true ∧
+        (kind = .circleannulus ∨ kind = .ellipse ∨ kind = .rectangle)) := by
+  have tq := fun d => toQ_of_unit d (radUnit o.radunit) hu
+  have ta : ∀ d : Dec, Len.toQ ⟨d, .deg⟩ = .ok ⟨d.val, .deg, false⟩ := fun d => rfl
+  unfold arityOK at hA
+  split at hA <;> try (exact absurd hA Bool.false_ne_true)
+  · rename_i c r
+    refine ⟨.circle ((Coord.dec (fmtDec o.prec c.1) (cuOf q o)), (Coord.dec (fmtDec o.prec c.2) (cuOf q o))) (⟨fmtDec o.prec (r), radUnit o.radunit⟩ : Len), [(cQ q o c.1, cQ q o c.2)], [(⟨(fmtDec o.prec (r)).val, luU (radUnit o.radunit), false⟩ : Q)], none, ?_, ?_, ?_, ?_, ?_, ?_, ?_, ?_⟩
+    · simp only [writeBody, flatten, List.cons_append, List.nil_append, Option.toList_none, Option.toList_some, List.append_nil]; rfl
+    · simp [bodyGeom, tq, bind, Except.bind, pure, Except.pure, ptQ, cQ]
+    · simp
+    · intro a ha
+      simp only [List.mem_singleton] at ha; subst ha
+      exact ⟨rfl, r, by simp [sizesW], Or.inl rfl⟩
+    · intro h; cases h
+    · intro a h; cases h
+    · intro h; cases h
+    · intro h; simp [Body.lenPairs] at h
+  · rename_i c r1 r2
+    refine ⟨.annulus ((Coord.dec (fmtDec o.prec c.1) (cuOf q o)), (Coord.dec (fmtDec o.prec c.2) (cuOf q o))) (⟨fmtDec o.prec (r1), radUnit o.radunit⟩ : Len) (⟨fmtDec o.prec (r2), radUnit o.radunit⟩ : Len), [(cQ q o c.1, cQ q o c.2)], [(⟨(fmtDec o.prec (r1)).val, luU (radUnit o.radunit), false⟩ : Q), (⟨(fmtDec o.prec (r2)).val, luU (radUnit o.radunit), false⟩ : Q)], none, ?_, ?_, ?_, ?_, ?_, ?_, ?_, ?_⟩
+    · simp only [writeBody, flatten, List.cons_append, List.nil_append, Option.toList_none, Option.toList_some, List.append_nil]; rfl
+    · simp [bodyGeom, tq, bind, Except.bind, pure, Except.pure, ptQ, cQ]
+    · simp
+    · intro a ha
+      simp only [List.mem_cons, List.mem_nil_iff, or_false] at ha
+      rcases ha with rfl | rfl
+      · exact ⟨rfl, r1, by simp [sizesW], Or.inl rfl⟩
+      · exact ⟨rfl, r2, by simp [sizesW], Or.inl rfl⟩
+    · intro _; exact ⟨r1, r2, rfl, rfl⟩
+    · intro a h; cases h
+    · intro h; cases h
+    · intro h
+      simp only [Body.lenPairs, List.any_cons, List.any_nil, Bool.or_false, Bool.or_self] at h
+      exact ⟨h, Or.inl rfl⟩
+  · rename_i c w h a
+    refine ⟨.ellipse ((Coord.dec (fmtDec o.prec c.1) (cuOf q o)), (Coord.dec (fmtDec o.prec c.2) (cuOf q o))) (⟨fmtDec o.prec (h / 2), radUnit o.radunit⟩ : Len) (⟨fmtDec o.prec (w / 2), radUnit o.radunit⟩ : Len) (⟨fmtDec o.prec (a / 2 * 2), .deg⟩ : Len), [(cQ q o c.1, cQ q o c.2)], [Q.scale 2 (⟨(fmtDec o.prec (w / 2)).val, luU (radUnit o.radunit), false⟩ : Q), Q.scale 2 (⟨(fmtDec o.prec (h / 2)).val, luU (radUnit o.radunit), false⟩ : Q)],
+      some (Q.scale (1 / 2) (Q.scale 2 ⟨(fmtDec o.prec (a / 2 * 2)).val, .deg, false⟩)), ?_, ?_, ?_, ?_, ?_, ?_, ?_, ?_⟩
+    · simp only [writeBody, flatten, List.cons_append, List.nil_append, Option.toList_none, Option.toList_some, List.append_nil]; rfl
+    · simp [bodyGeom, tq, ta, bind, Except.bind, pure, Except.pure, ptQ, cQ]
+    · simp
+    · intro x hx
+      simp only [List.mem_cons, List.mem_nil_iff, or_false] at hx
+      rcases hx with rfl | rfl
+      · exact ⟨rfl, w / 2, by simp [sizesW], Or.inr (by simp [Q.scale]; ring)⟩
+      · exact ⟨rfl, h / 2, by simp [sizesW], Or.inr (by simp [Q.scale]; ring)⟩
+    · intro hh; cases hh
+    · intro x hx
+      simp only [Option.some.injEq] at hx
+      subst hx; rfl
+    · intro hh; cases hh
+    · intro hh
+      simp only [Body.lenPairs, List.any_cons, List.any_nil, Bool.or_false, Bool.or_self] at hh
+      exact ⟨hh, Or.inr (Or.inl rfl)⟩
+  · rename_i c w h a
+    refine ⟨.rotbox ((Coord.dec (fmtDec o.prec c.1) (cuOf q o)), (Coord.dec (fmtDec o.prec c.2) (cuOf q o))) (⟨fmtDec o.prec (w), radUnit o.radunit⟩ : Len) (⟨fmtDec o.prec (h), radUnit o.radunit⟩ : Len) (⟨fmtDec o.prec (a), .deg⟩ : Len), [(cQ q o c.1, cQ q o c.2)], [(⟨(fmtDec o.prec (w)).val, luU (radUnit o.radunit), false⟩ : Q), (⟨(fmtDec o.prec (h)).val, luU (radUnit o.radunit), false⟩ : Q)],
+      some ⟨(fmtDec o.prec a).val, .deg, false⟩, ?_, ?_, ?_, ?_, ?_, ?_, ?_, ?_⟩
+    · simp only [writeBody, flatten, List.cons_append, List.nil_append, Option.toList_none, Option.toList_some, List.append_nil]; rfl
+    · simp [bodyGeom, tq, ta, bind, Except.bind, pure, Except.pure, ptQ, cQ]
+    · simp
+    · intro x hx
+      simp only [List.mem_cons, List.mem_nil_iff, or_false] at hx
+      rcases hx with rfl | rfl
+      · exact ⟨rfl, w, by simp [sizesW], Or.inl rfl⟩
+      · exact ⟨rfl, h, by simp [sizesW], Or.inl rfl⟩
+    · intro hh; cases hh
+    · intro x hx
+      simp only [Option.some.injEq] at hx
+      subst hx; rfl
+    · intro hh; cases hh
+    · intro hh
+      simp only [Body.lenPairs, List.any_cons, List.any_nil, Bool.or_false, Bool.or_self] at hh
+      exact ⟨hh, Or.inr (Or.inr rfl)⟩
+  · have h3 := hpoly rfl
+    refine ⟨.poly (pts.map fun t => ((Coord.dec (fmtDec o.prec t.1) (cuOf q o)), (Coord.dec (fmtDec o.prec t.2) (cuOf q o)))), pts.map (fun p => (cQ q o p.1, cQ q o p.2)), [], none,
+      ?_, ?_, rfl, ?_, ?_, ?_, ?_, ?_⟩
+    · simp only [writeBody, List.append_nil, Option.toList_none, pairsOf_flatten]; rfl
+    · simp only [bodyGeom, List.length_map]
+      rw [if_neg (by omega)]
+      simp [ptQ, cQ, List.map_map, Function.comp_def]
+    · intro a ha; cases ha
+    · intro h; cases h
+    · intro a h; cases h
+    · intro h; cases h
+    · intro h; simp [Body.lenPairs] at h
+  · rename_i p1 p2
+    refine ⟨.line ((Coord.dec (fmtDec o.prec p1.1) (cuOf q o)), (Coord.dec (fmtDec o.prec p1.2) (cuOf q o))) ((Coord.dec (fmtDec o.prec p2.1) (cuOf q o)), (Coord.dec (fmtDec o.prec p2.2) (cuOf q o))), [(cQ q o p1.1, cQ q o p1.2), (cQ q o p2.1, cQ q o p2.2)], [], none, ?_, ?_, ?_, ?_, ?_, ?_, ?_, ?_⟩
+    · simp only [writeBody, flatten, List.cons_append, List.nil_append, Option.toList_none, Option.toList_some, List.append_nil]; rfl
+    · simp [bodyGeom, ptQ, cQ]
+    · simp
+    · intro a ha; cases ha
+    · intro h; cases h
+    · intro a h; cases h
+    · intro h; cases h
+    · intro h; simp [Body.lenPairs] at h
+  · rename_i c
+    have hs := hsym rfl
+    cases hm : m.get? .symbol with
+    | some v =>
+      rw [hm] at hs
+      refine ⟨.symbol ((Coord.dec (fmtDec o.prec c.1) (cuOf q o)), (Coord.dec (fmtDec o.prec c.2) (cuOf q o))) v.pyStr, [(cQ q o c.1, cQ q o c.2)], [], none, ?_, ?_, ?_, ?_, ?_, ?_, ?_, ?_⟩
+      · simp only [writeBody, flatten, List.cons_append, List.nil_append, Option.toList_none, List.append_nil, hm]; rfl
+      · simp only [bodyGeom]
+        rw [if_pos (by simpa [symbolOK] using hs)]
+        simp [ptQ, cQ]
+      · simp
+      · intro a ha; cases ha
+      · intro h; cases h
+      · intro a h; cases h
+      · intro h; cases h
+      · intro h; simp [Body.lenPairs] at h
+    | none =>
+      rw [hm] at hs
+      refine ⟨.point ((Coord.dec (fmtDec o.prec c.1) (cuOf q o)), (Coord.dec (fmtDec o.prec c.2) (cuOf q o))), [(cQ q o c.1, cQ q o c.2)], [], none, ?_, ?_, ?_, ?_, ?_, ?_, ?_, ?_⟩
+      · simp only [writeBody, flatten, List.cons_append, List.nil_append, Option.toList_none, List.append_nil, hm]; rfl
+      · simp [bodyGeom, ptQ, cQ]
+      · simp
+      · intro a ha; cases ha
+      · intro h; cases h
+      · intro a h; cases h
+      · intro _; simpa [symbolOK] using hs
+      · intro h; simp [Body.lenPairs] at h
+  · rename_i c
+    obtain ⟨v, hv⟩ := htext rfl
+    refine ⟨.text ((Coord.dec (fmtDec o.prec c.1) (cuOf q o)), (Coord.dec (fmtDec o.prec c.2) (cuOf q o))) v.pyStr, [(cQ q o c.1, cQ q o c.2)], [], none, ?_, ?_, ?_, ?_, ?_, ?_, ?_, ?_⟩
+    · simp only [writeBody, flatten, List.cons_append, List.nil_append, Option.toList_none, List.append_nil, hv]; rfl
+    · simp [bodyGeom, ptQ, cQ]
+    · simp
+    · intro a ha; cases ha
+    · intro h; cases h
+    · intro a h; cases h
+    · intro h; cases h
+    · intro h; simp [Body.lenPairs] at h
+
+/-! ### `Good`: the representable regions minus exactly the known failing classes -/
+
+def annulusPrints (p : Nat) : List ℚ → Bool
+  | [a, b] => decide ((fmtDec p a).val < (fmtDec p b).val)
+  | _ => true
+
+/-- a CRTF-representable region under admissible options, minus the input classes of the
+open findings (each conjunct from `F19` on names its finding):
+* F19: every size, as printed with `fmt`, is not `0`, and an annulus keeps `inner < outer`;
+* F20: a point region has a (valid) `symbol`, unless the reader knows `point`;
+* F21: no pixel polygon / line while pixel coordinates are written as `deg`;
+* F33: no pair of lengths in `"` (radunit `arcsec`) while the reader's regex rejects it. -/
+def Good (q : Quirks) (o : Opts) (r : WReg) : Prop :=
+  WellFormed r ∧
+  r.sky = !(o.coordsys == "image") ∧
+  listOK ((mergedMeta r).get? .labeloff) = true ∧ listOK ((mergedMeta r).get? .range) = true ∧
+  listOK ((mergedMeta r).get? .corr) = true ∧
+  (r.sky = true → ∀ p ∈ r.pts, |(fmtDec o.prec p.2).val| ≤ 90) ∧
+  (r.kind = .polygon → 3 ≤ r.pts.length) ∧
+  (∀ s ∈ sizesW r.kind r.sizes, 0 < s ∧ 0 < (fmtDec o.prec s).mant) ∧
+  (r.kind = .circleannulus → annulusPrints o.prec r.sizes = true) ∧
+  (r.kind = .point → symbolOK q ((mergedMeta r).get? .symbol) = true) ∧
+  ¬ (q.pixAsDeg = true ∧ r.sky = false ∧ (r.kind = .polygon ∨ r.kind = .line)) ∧
+  ¬ (q.quotePairUnreadable = true ∧ o.radunit = "arcsec" ∧
+      (r.kind = .circleannulus ∨ r.kind = .ellipse ∨ r.kind = .rectangle))
+
+instance (q : Quirks) (o : Opts) (r : WReg) : Decidable (Good q o r) := by unfold Good; infer_instance
+
+theorem arity_facts (k : Kind) (p : List (ℚ × ℚ)) (sz : List ℚ) (a : Option ℚ)
+    (h : arityOK k p sz a = true) : k ≠ .compound ∧ (k ≠ .polygon → p ≠ []) := by
+  unfold arityOK at h
+  split at h <;> simp_all
+
+/-- existence: the four steps succeed on a `Good` region under admissible options. -/
+theorem chain_exists (q : Quirks) (qn : String → String) (o : Opts) (g : String) (r : WReg)
+    (ho : optsOK o) (hg : coordsysTable.lookup o.coordsys = some g) (h : Good q o r) :
+    ∃ x, Chain q qn o g r x := by
+  obtain ⟨⟨hA, hn⟩, hsky, hl1, hl2, hl3, hlat, hpoly, hsz, hann, hsym, hf21, hf33⟩ := h
+  have hF := optFacts_all _ ho
+  simp only [optFacts, Bool.and_eq_true, beq_iff_eq, Bool.not_eq_true', Bool.or_eq_true, bne_iff_ne,
+    ne_eq, Bool.and_eq_false_iff] at hF
+  obtain ⟨⟨⟨⟨⟨⟨⟨⟨F1, F2⟩, F3⟩, F4⟩, F5⟩, F6⟩, F7⟩, F8⟩, F9⟩ := hF
+  rw [hg] at F2
+  simp only [beq_iff_eq] at F2
+  obtain ⟨hnc, hpne⟩ := arity_facts _ _ _ _ hA
+  -- step 1: the shape
+  let s : WShape := ⟨o.coordsys, r.kind, r.sky, flatten r.pts ++ r.sizes ++ r.angle.toList, shapeMeta q r,
+    r.mt.get? .include⟩
+  have h1 : toShape q o.coordsys r = .ok s := by
+    unfold toShape
+    rw [if_neg hnc]
+    have : ¬ (r.sky && (isImage o.coordsys || (coordsysTable.lookup o.coordsys).isNone)) = true := by
+      rw [hsky, hg, F3]
+      by_cases hc : o.coordsys = "image" <;> simp [hc]
+    rw [if_neg this]
+  -- the writer's meta
+  have wm_get : ∀ kk, kk ≠ .label → kk ≠ .text → writerValid q kk = true →
+      (writerMeta q s).get? kk = (mergedMeta r).get? kk := by
+    intro kk n1 n2 hv
+    unfold writerMeta
+    rw [get?_filterKeys s.mt (writerValid q) kk, hv, if_pos rfl]
+    exact get?_shapeMeta_ne q r kk n1 n2
+  have hvw : ∀ p ∈ writerMeta q s, writerValid q p.1 = true := by
+    intro p hp
+    simp only [writerMeta, List.mem_filter] at hp
+    exact hp.2
+  obtain ⟨tail, htail⟩ := tailItems_ok q (writerMeta q s)
+    (by rw [wm_get .labeloff (by decide) (by decide) rfl]; exact hl1)
+    (by rw [wm_get .range (by decide) (by decide) rfl]; exact hl2)
+    (by rw [wm_get .corr (by decide) (by decide) rfl]; exact hl3)
+  have hcd : coordDiffers o s = none := by simp [coordDiffers, s]
+  have hi : writeItems q none (writerMeta q s) = .ok (assemble (headItems q none (writerMeta q s)) tail) := by
+    unfold writeItems; rw [htail]
+  have htext : r.kind = .text → ∃ v, (writerMeta q s).get? .text = some v := by
+    intro hk
+    unfold writerMeta
+    rw [get?_filterKeys s.mt (writerValid q) .text]
+    simp only [writerValid, if_true]
+    show ∃ v, (shapeMeta q r).get? .text = some v
+    unfold shapeMeta
+    rw [if_pos hk]
+    split_ifs <;> exact ⟨_, get?_set_self _ _ _⟩
+  obtain ⟨body, ptsQ, szQ, angQ, hb, hgeom, hpts, hszQ, hannQ, hangQ, hpb, hqp⟩ :=
+    written_read q o o.coordsys r.kind r.sky r.pts r.sizes r.angle (shapeMeta q r) (writerMeta q s)
+      (r.mt.get? .include) hA F5 htext
+      (by intro hk; rw [wm_get .symbol (by decide) (by decide) rfl]; exact hsym hk) hpoly
+  -- step 2: the line
+  have hunit : ¬ (!isImage o.coordsys && !s.sky && o.radunit ≠ "") = true := by
+    show ¬ (!isImage o.coordsys && !r.sky && o.radunit ≠ "") = true
+    rw [hsky, F3]
+    by_cases hc : o.coordsys = "image" <;> simp [hc]
+  let l : RLine := { excl := shapeExcl s, ann := (writerMeta q s).get? .type = some (.str "ann"),
+                     body := body, items := assemble (headItems q none (writerMeta q s)) tail }
+  have h2 : writeLine q o s = .ok l := by
+    unfold writeLine
+    rw [if_neg (by show ¬ (coordsysTable.lookup o.coordsys).isNone = true; rw [hg]; simp), hcd, hi]
+    simp only
+    rw [if_neg hunit]
+    have hb' : writeBody q o s (writerMeta q s) = .ok body := hb
+    rw [hb']
+  -- step 3: the reader's shape
+  have hitems := writeItems_ok_items q _ _ hvw hi
+  obtain ⟨m1, hm1⟩ := readItems_ok _ hitems (gmeta g)
+  have hm : lineMeta qn (gmeta g) l = .ok (((normRange qn (m1.set .include (.bool (!l.excl)))).set .type
+      (.str (if l.ann then "ann" else "reg")))) := by
+    unfold lineMeta
+    show (do let m1 ← readItems false (gmeta g) (assemble (headItems q none (writerMeta q s)) tail); _) = _
+    rw [hm1]; rfl
+  set m := ((normRange qn (m1.set .include (.bool (!l.excl)))).set .type
+      (.str (if l.ann then "ann" else "reg"))) with hmdef
+  have hcoord : coordsysOf m = o.coordsys := by
+    have hc := global_default_inline_override qn (gmeta g) m l hm .coord (by decide) (by decide) (by decide)
+    have ha : assigned false .coord l.items = none := by
+      show assigned false .coord (assemble (headItems q none (writerMeta q s)) tail) = none
+      have hnw : (keys (writerMeta q s)).Nodup := nodup_filter _ _ (nodup_shapeMeta q r hn)
+      rw [assigned_written q _ _ hi .coord (by decide) (by decide) (by decide),
+        assigned_pairItems q _ .coord hnw hvw]
+      simp [writerSkip]
+    rw [ha] at hc
+    simp only [gmeta, AList.get?, if_true] at hc
+    rw [coord_selects_frame m g hc]
+    exact F2
+  have hpoint : ¬ (isPointBody l.body && q.pointUnreadable) = true := by
+    show ¬ (isPointBody body && q.pointUnreadable) = true
+    intro hc
+    simp only [Bool.and_eq_true] at hc
+    rw [hpb hc.1] at hc
+    exact absurd hc.2 (by simp)
+  have hquote : ¬ (q.quotePairUnreadable && l.body.lenPairs.any (fun p => isQuoteUnit p.1.u || isQuoteUnit p.2.u)) = true := by
+    show ¬ (q.quotePairUnreadable && body.lenPairs.any (fun p => isQuoteUnit p.1.u || isQuoteUnit p.2.u)) = true
+    intro hc
+    simp only [Bool.and_eq_true] at hc
+    obtain ⟨hq1, hq2⟩ := hqp hc.2
+    rw [F7] at hq1
+    exact hf33 ⟨hc.1, by simpa using hq1, hq2⟩
+  let sh : RShape := { coordsys := coordsysOf m, kind := r.kind, pts := ptsQ, sizes := szQ, angle := angQ,
+                       mt := (bodyMeta m l.body).erase .coord, incl := !l.excl }
+  have h3 : regionShape q qn (gmeta g) l = .ok sh := by
+    unfold regionShape
+    rw [if_neg hpoint, if_neg hquote, hm]
+    show (do let (kind, pts, sizes, angle) ← bodyGeom body; _) = _
+    rw [hgeom]; rfl
+  -- step 4: the region
+  have himg : isImage sh.coordsys = (o.coordsys == "image") := by
+    show isImage (coordsysOf m) = _
+    rw [hcoord, F3]
+  have hc4 : checkCoords sh = .ok () := by
+    by_cases hc : o.coordsys = "image"
+    · refine checkCoords_pixel sh (by rw [himg]; simp [hc]) ?_
+      intro hk p hp
+      have hsk : r.sky = false := by rw [hsky]; simp [hc]
+      have hpd : q.pixAsDeg = false := by
+        by_contra hne
+        exact hf21 ⟨by simpa using hne, hsk, hk⟩
+      have hcu : cuOf q o = .pix := by
+        have : isImage o.coordsys = true := by rw [F3]; simp [hc]
+        simp [cuOf, hpd, this]
+      change p ∈ ptsQ at hp
+      rw [hpts] at hp
+      simp only [List.mem_map] at hp
+      obtain ⟨t, -, rfl⟩ := hp
+      simp [cQ, hcu, Coord.toQ]
+    · have hsk : r.sky = true := by rw [hsky]; simp [hc]
+      have hcu : cuOf q o = .deg := by
+        have : isImage o.coordsys = false := by rw [F3]; simp [hc]
+        simp [cuOf, this]
+      refine checkCoords_sky sh (by rw [himg]; simp [hc]) ?_ ?_ ?_
+      · show ptsQ ≠ []
+        rw [hpts]
+        by_cases hkp : r.kind = .polygon
+        · have := hpoly hkp
+          intro he
+          have hl := congrArg List.length he
+          simp only [List.length_map, List.length_nil] at hl
+          omega
+        · simpa using hpne hkp
+      · intro p hp
+        change p ∈ ptsQ at hp
+        rw [hpts] at hp
+        simp only [List.mem_map] at hp
+        obtain ⟨t, ht, rfl⟩ := hp
+        simp only [cQ, hcu, Coord.toQ, true_and]
+        exact hlat hsk t ht
+      · show skyFrames.contains (coordsysOf m) = true
+        rw [hcoord]
+        rcases F6 with F6 | F6
+        · exact absurd F6 hc
+        · exact F6.1
+  have hs4 : checkSizes sh = .ok () := by
+    refine checkSizes_ok sh ?_ ?_ ?_
+    · intro a ha
+      change a ∈ szQ at ha
+      obtain ⟨hu, t, ht, hv⟩ := hszQ a ha
+      obtain ⟨ht1, ht2⟩ := hsz t ht
+      have hpos := fmt_pos o.prec t ht1 ht2
+      have hav : 0 < a.v := by rcases hv with hv | hv <;> rw [hv] <;> linarith
+      simp only [sizeOk, Bool.and_eq_true, Bool.or_eq_true, Bool.not_eq_true', decide_eq_true_eq, hav, and_true]
+      rw [himg]
+      by_cases hc : o.coordsys = "image"
+      · left; simp [hc]
+      · right
+        rw [hu]
+        rcases F6 with F6 | F6
+        · exact absurd F6 hc
+        · have h5 := F5
+          have h6 := F6.2
+          revert h5 h6
+          cases radUnit o.radunit <;> simp [luU]
+    · intro hk
+      obtain ⟨a, b, hab, hq⟩ := hannQ hk
+      have hpr := hann hk
+      rw [hab] at hpr
+      simp only [annulusPrints, decide_eq_true_eq] at hpr
+      show annulusOk (isImage sh.coordsys) szQ = true
+      rw [hq]
+      simp only [annulusOk]
+      split_ifs
+      · simpa using hpr
+      · simpa using toDeg_lt _ _ _ false false hpr
+    · intro a ha
+      change angQ = some a at ha
+      simp [angleOk, hangQ a ha]
+  exact ⟨buildRegion sh, s, l, sh, h1, h2, h3, toRegion_ok sh hc4 hs4⟩
+
+theorem forall₂_of_forall_exists {α β : Type} {R : α → β → Prop} (l : List α)
+    (h : ∀ a ∈ l, ∃ b, R a b) : ∃ l', List.Forall₂ R l l' := by
+  induction l with
+  | nil => exact ⟨[], List.Forall₂.nil⟩
+  | cons a r ih =>
+    obtain ⟨b, hb⟩ := h a List.mem_cons_self
+    obtain ⟨l', hl'⟩ := ih fun x hx => h x (List.mem_cons_of_mem _ hx)
+    exact ⟨b :: l', List.Forall₂.cons hb hl'⟩
+
+theorem forall₂_split {α β γ : Type} {R : α → β → Prop} {S : β → γ → Prop} {l1 : List α} {l3 : List γ}
+    (h : List.Forall₂ (fun a c => ∃ b, R a b ∧ S b c) l1 l3) :
+    ∃ l2, List.Forall₂ R l1 l2 ∧ List.Forall₂ S l2 l3 := by
+  induction h with
+  | nil => exact ⟨[], List.Forall₂.nil, List.Forall₂.nil⟩
+  | cons hab _ ih =>
+    obtain ⟨b, h1, h2⟩ := hab
+    obtain ⟨l2, i1, i2⟩ := ih
+    exact ⟨b :: l2, List.Forall₂.cons h1 i1, List.Forall₂.cons h2 i2⟩
+
+/-- the converse of `roundtrip_list`: per-region chains assemble into a successful
+serialise-then-parse of the whole list. -/
+theorem roundtrip_list_ok (q : Quirks) (qn : String → String) (o : Opts) (g : String) (rs : List WReg)
+    (gs : List RReg) (hg : coordsysTable.lookup o.coordsys.toLower = some g)
+    (hna : ¬ (o.radunit = "arcsec" ∧ o.coordsys.toLower = "image"))
+    (h : List.Forall₂ (Chain q qn o g) rs gs) :
+    ∃ ls, serialize q o rs = .ok ls ∧ parse q qn ls = .ok gs := by
+  have h' : List.Forall₂ (fun r x => ∃ sh, (∃ l, (∃ s, toShape q o.coordsys r = .ok s ∧ writeLine q o s = .ok l) ∧
+      regionShape q qn (gmeta g) l = .ok sh) ∧ toRegion sh = .ok x) rs gs := by
+    refine h.imp ?_
+    rintro r x ⟨s, l, sh, a, b, c, d⟩
+    exact ⟨sh, ⟨l, ⟨s, a, b⟩, c⟩, d⟩
+  obtain ⟨rsh, h123, h4⟩ := forall₂_split h'
+  obtain ⟨lines, h12, h3⟩ := forall₂_split h123
+  obtain ⟨shapes, h1, h2⟩ := forall₂_split h12
+  have e1 := (mapM_ok_iff _ _ _).mpr h1
+  have e2 := (mapM_ok_iff _ _ _).mpr h2
+  have e3 := (mapM_ok_iff _ _ _).mpr h3
+  have e4 := (mapM_ok_iff _ _ _).mpr h4
+  have hgne : g ≠ "" := by
+    have : ∀ p ∈ coordsysTable, p.2 ≠ "" := by decide +kernel
+    exact this _ (lookup_mem _ _ _ hg)
+  refine ⟨.comment "CRTFv0" :: .global [.pair "coord" (.scalar g .none)] :: lines.map .region, ?_, ?_⟩
+  · unfold serialize
+    rw [e1]
+    simp only [bind, Except.bind, toCrtf]
+    rw [if_neg hna, hg]
+    simp only [e2, pure, Except.pure]
+  · unfold parse
+    rw [phase1_written q qn g hgne, e3]
+    simp only [bind, Except.bind]
+    exact e4
+
+/-- full-strength clause: under every admissible option set every list of representable
+regions (the property's quantifier; sizes that do not print as `0` — F19 is a limit of the
+format, not of the code) round-trips. -/
+def Representable (o : Opts) (r : WReg) : Prop := Good Quirks.fixed o r
+
+instance (o : Opts) (r : WReg) : Decidable (Representable o r) := by unfold Representable; infer_instance
+
+def crtf_roundtrip_full (q : Quirks) : Prop :=
+  ∀ (o : Opts) (rs : List WReg), optsOK o → (∀ r ∈ rs, Representable o r) →
+    ∃ ls gs, serialize q o rs = .ok ls ∧ parse q id ls = .ok gs ∧ List.Forall₂ (RT q o) rs gs
+
+/-- `crtf_roundtrip` (partial, any list length, any `Quirks`): under admissible options every
+list of `Good` regions is serialised, read back, and related to the input by `RT`. -/
+theorem crtf_roundtrip_partial (q : Quirks) (qn : String → String) (o : Opts) (rs : List WReg)
+    (ho : optsOK o) (h : ∀ r ∈ rs, Good q o r) :
+    ∃ ls gs, serialize q o rs = .ok ls ∧ parse q qn ls = .ok gs ∧ List.Forall₂ (RT q o) rs gs := by
+  have hF := optFacts_all _ ho
+  simp only [optFacts, Bool.and_eq_true, beq_iff_eq, Bool.not_eq_true', Bool.or_eq_true, bne_iff_ne,
+    ne_eq, Bool.and_eq_false_iff] at hF
+  obtain ⟨⟨⟨⟨⟨⟨⟨⟨F1, F2⟩, F3⟩, F4⟩, F5⟩, F6⟩, F7⟩, F8⟩, F9⟩ := hF
+  cases hg : coordsysTable.lookup o.coordsys with
+  | none => rw [hg] at F2; simp at F2
+  | some g =>
+    obtain ⟨gs, hgs⟩ := forall₂_of_forall_exists rs (fun r hr => chain_exists q qn o g r ho hg (h r hr))
+    have hna : ¬ (o.radunit = "arcsec" ∧ o.coordsys.toLower = "image") := by
+      rintro ⟨a, b⟩
+      rcases F4 with F4 | F4
+      · exact absurd a (by simpa using F4)
+      · exact absurd b (by simpa using F4)
+    obtain ⟨ls, h1, h2⟩ := roundtrip_list_ok q qn o g rs gs (by rw [F1]; exact hg) hna hgs
+    exact ⟨ls, gs, h1, h2, crtf_roundtrip q qn o rs ls gs (fun r hr => (h r hr).1) h1 h2⟩
+
+/-- with every candidate defect repaired the full-strength clause holds. -/
+theorem crtf_roundtrip_fixed : crtf_roundtrip_full Quirks.fixed :=
+  fun o rs ho h => crtf_roundtrip_partial Quirks.fixed id o rs ho h
+
+/-! ## 8. `crtf_fixed_point`: parse -> serialise -> parse -/
+
+/-- `x` has at most `p` decimals. -/
+def OnGrid (p : Nat) (x : ℚ) : Prop := ∃ m : Nat, |x| * (10 : ℚ) ^ p = (m : ℚ)
+
+/-- what was read from a written line is on the grid of the precision (ellipse axes: their
+halves, which is what the file stores). -/
+theorem parsed_on_grid (q : Quirks) (qn : String → String) (o : Opts) (g : String) (r : WReg) (x : RReg)
+    (h : Chain q qn o g r x) (hA : arityOK r.kind r.pts r.sizes r.angle = true) :
+    GeomRel (fun _ y => OnGrid o.prec y) (fun _ y => OnGrid o.prec (y / 2)) r.kind r.pts r.sizes r.angle
+      (x.pts.map fun p => (p.1.v, p.2.v)) (x.sizes.map (·.v)) (x.angle.map (·.v)) :=
+  (chain_geom _ _ q qn o g (fun x => fmtDec_val_on_grid o.prec x)
+    (fun w => by
+      have : 2 * (fmtDec o.prec (w / 2)).val / 2 = (fmtDec o.prec (w / 2)).val := by ring
+      show OnGrid o.prec (2 * (fmtDec o.prec (w / 2)).val / 2)
+      rw [this]; exact fmtDec_val_on_grid o.prec _) r x h hA).2
+
+/-- a region whose numbers are on the grid is read back EXACTLY. -/
+theorem on_grid_exact (q : Quirks) (qn : String → String) (o : Opts) (g : String) (w : WReg) (x : RReg)
+    (h : Chain q qn o g w x) (hA : arityOK w.kind w.pts w.sizes w.angle = true) :
+    x.kind = w.kind ∧
+    GeomRel (fun a y => OnGrid o.prec a → y = a) (fun a y => OnGrid o.prec (a / 2) → y = a)
+      w.kind w.pts w.sizes w.angle
+      (x.pts.map fun p => (p.1.v, p.2.v)) (x.sizes.map (·.v)) (x.angle.map (·.v)) :=
+  chain_geom (fun a y => OnGrid o.prec a → y = a) (fun a y => OnGrid o.prec (a / 2) → y = a) q qn o g
+    (fun a ⟨m, hm⟩ => fmtDec_grid o.prec a m hm)
+    (fun a ⟨m, hm⟩ => by rw [fmtDec_grid o.prec (a / 2) m hm]; ring) w x h hA
+
+theorem forall₂_exact_eq {P : ℚ → Prop} {l0 : List ℚ} {l1 l2 : List ℚ}
+    (h1 : List.Forall₂ (fun _ y => P y) l0 l1) (h2 : List.Forall₂ (fun a y => P a → y = a) l1 l2) : l2 = l1 := by
+  induction h1 generalizing l2 with
+  | nil => cases h2; rfl
+  | cons hp _ ih =>
+    cases h2 with
+    | cons he hr => rw [he hp, ih hr]
+
+theorem forall₂_exact_pt_eq {P : ℚ → Prop} {l0 l1 l2 : List (ℚ × ℚ)}
+    (h1 : List.Forall₂ (RelPt fun _ y => P y) l0 l1)
+    (h2 : List.Forall₂ (RelPt fun a y => P a → y = a) l1 l2) : l2 = l1 := by
+  induction h1 generalizing l2 with
+  | nil => cases h2; rfl
+  | cons hp _ ih =>
+    cases h2 with
+    | cons he hr =>
+      rw [ih hr]
+      congr 1
+      exact Prod.ext (he.1 hp.1) (he.2 hp.2)
+
+theorem arity_of_shape (k : Kind) (p p' : List (ℚ × ℚ)) (s s' : List ℚ) (a a' : Option ℚ)
+    (h : arityOK k p s a = true) (hp : p.length = p'.length) (hs : s.length = s'.length)
+    (ha : a.isSome = a'.isSome) : arityOK k p' s' a' = true := by
+  unfold arityOK at h
+  split at h <;> try (exact absurd h Bool.false_ne_true)
+  all_goals
+    simp only [List.length_cons, List.length_nil, Option.isSome_none, Option.isSome_some] at hp hs ha
+  · obtain ⟨c, rfl⟩ := List.length_eq_one_iff.mp hp.symm
+    obtain ⟨r, rfl⟩ := List.length_eq_one_iff.mp hs.symm
+    cases a' <;> first | rfl | (exfalso; revert ha; simp)
+  · obtain ⟨c, rfl⟩ := List.length_eq_one_iff.mp hp.symm
+    obtain ⟨r1, r2, rfl⟩ := List.length_eq_two.mp hs.symm
+    cases a' <;> first | rfl | (exfalso; revert ha; simp)
+  · obtain ⟨c, rfl⟩ := List.length_eq_one_iff.mp hp.symm
+    obtain ⟨r1, r2, rfl⟩ := List.length_eq_two.mp hs.symm
+    cases a' <;> first | rfl | (exfalso; revert ha; simp)
+  · obtain ⟨c, rfl⟩ := List.length_eq_one_iff.mp hp.symm
+    obtain ⟨r1, r2, rfl⟩ := List.length_eq_two.mp hs.symm
+    cases a' <;> first | rfl | (exfalso; revert ha; simp)
+  · have : s' = [] := List.length_eq_zero_iff.mp hs.symm
+    subst this
+    cases a' <;> first | rfl | (exfalso; revert ha; simp)
+  · obtain ⟨c1, c2, rfl⟩ := List.length_eq_two.mp hp.symm
+    have : s' = [] := List.length_eq_zero_iff.mp hs.symm
+    subst this
+    cases a' <;> first | rfl | (exfalso; revert ha; simp)
+  · obtain ⟨c, rfl⟩ := List.length_eq_one_iff.mp hp.symm
+    have : s' = [] := List.length_eq_zero_iff.mp hs.symm
+    subst this
+    cases a' <;> first | rfl | (exfalso; revert ha; simp)
+  · obtain ⟨c, rfl⟩ := List.length_eq_one_iff.mp hp.symm
+    have : s' = [] := List.length_eq_zero_iff.mp hs.symm
+    subst this
+    cases a' <;> first | rfl | (exfalso; revert ha; simp)
+
+theorem toW_inv {o : Opts} {x : RReg} {w : WReg} (h : toW o x = some w) :
+    w.kind = x.kind ∧ w.pts = x.pts.map (fun p => (p.1.v, p.2.v)) ∧ w.sizes = x.sizes.map (·.v) ∧
+      w.angle = x.angle.map (·.v) ∧ w.mt = x.mt ∧ w.vis = x.vis := by
+  unfold toW at h
+  simp only at h
+  split_ifs at h <;>
+    (simp only [Option.some.injEq] at h; subst h; exact ⟨rfl, rfl, rfl, rfl, rfl, rfl⟩)
+
+/-- `crtf_fixed_point` (geometry and class): serialise a region, parse it (`x`), serialise
+what was parsed (`w = toW x`: same frame and units, so astropy's conversions are
+identities), parse again (`x'`): the second result has the same class and EXACTLY the same
+numbers as the first. -/
+theorem crtf_fixed_point (q : Quirks) (qn : String → String) (o : Opts) (g : String)
+    (r : WReg) (x : RReg) (w : WReg) (x' : RReg)
+    (h1 : Chain q qn o g r x) (hA : arityOK r.kind r.pts r.sizes r.angle = true)
+    (hw : toW o x = some w) (h2 : Chain q qn o g w x') :
+    x'.kind = x.kind ∧
+    x'.pts.map (fun p => (p.1.v, p.2.v)) = x.pts.map (fun p => (p.1.v, p.2.v)) ∧
+    x'.sizes.map (·.v) = x.sizes.map (·.v) ∧ x'.angle.map (·.v) = x.angle.map (·.v) := by
+  obtain ⟨w_kind, w_pts, w_sizes, w_angle, -, -⟩ := toW_inv hw
+  obtain ⟨xk, gc⟩ := chain_geom (Close o.prec) (Close2 o.prec) q qn o g (close_fmt o.prec) (close2_fmt_half o.prec) r x h1 hA
+  have gg := parsed_on_grid q qn o g r x h1 hA
+  -- the parsed region has the parameter lists of its class
+  have hAw : arityOK w.kind w.pts w.sizes w.angle = true := by
+    rw [w_kind, xk, w_pts, w_sizes, w_angle]
+    refine arity_of_shape _ _ _ _ _ _ _ hA gc.1.length_eq ?_ ?_
+    · have := gc.2.1
+      split_ifs at this <;> exact this.length_eq
+    · have := gc.2.2
+      cases hra : r.angle <;> cases hxa : x.angle.map (·.v) <;> simp_all
+  obtain ⟨xk', ge⟩ := on_grid_exact q qn o g w x' h2 hAw
+  rw [w_kind, w_pts, w_sizes, w_angle] at ge
+  rw [xk] at ge
+  refine ⟨by rw [xk', w_kind], forall₂_exact_pt_eq gg.1 ge.1, ?_, ?_⟩
+  · have g2 := gg.2.1
+    have e2 := ge.2.1
+    by_cases hk : r.kind = .ellipse
+    · rw [if_pos hk] at g2 e2
+      exact forall₂_exact_eq (P := fun y => OnGrid o.prec (y / 2)) g2 e2
+    · rw [if_neg hk] at g2 e2
+      exact forall₂_exact_eq (P := fun y => OnGrid o.prec y) g2 e2
+  · have g3 := gg.2.2
+    have e3 := ge.2.2
+    cases hxa : x.angle.map (·.v) with
+    | none =>
+      rw [hxa] at e3
+      cases hx'a : x'.angle.map (·.v) with
+      | none => rfl
+      | some y => rw [hx'a] at e3; simp at e3
+    | some a =>
+      rw [hxa] at e3 g3
+      cases hx'a : x'.angle.map (·.v) with
+      | none => rw [hx'a] at e3; simp at e3
+      | some y =>
+        rw [hx'a] at e3
+        cases hra : r.angle with
+        | none => rw [hra] at g3; simp at g3
+        | some ra =>
+          rw [hra] at g3
+          simp only at g3 e3
+          rw [e3 g3]
+
+/-- `crtf_fixed_point` (metadata): values that are already text — as everything the reader
+produces is — are written and read back verbatim; include sense and annotation type are
+kept (clauses `incl`, `ann`, `scalar`, `label` of `RT` applied to the parsed region). -/
+theorem crtf_fixed_point_meta (q : Quirks) (o : Opts) (w : WReg) (x' : RReg) (h : RT q o w x')
+    (k : Key) (t : String) (hk : scalarKey q k = true) (hv : (mergedMeta w).get? k = some (.str t)) (ht : t ≠ "") :
+    (if isViz k then x'.vis else x'.mt).get? k = some (.str t) :=
+  h.scalar k (.str t) hk hv rfl ht
+
+/-- `ellipse_axes_swap_involutive`: the writer puts `[height/2, width/2]` on the line, the
+reader doubles and swaps back: `width`, `height` come back in their places as twice the
+printed halves, the rotation angle is printed and read as it is (no factor), and when the
+halves and the angle already have at most `p` decimals the whole thing is the identity. -/
+theorem ellipse_axes_swap_involutive (q : Quirks) (o : Opts) (cs : String) (sky : Bool) (mt m : AList)
+    (incl : Option MVal) (c : ℚ × ℚ) (w h a : ℚ)
+    (hu : [LUnit.deg, .arcmin, .dq, .rad, .pix].contains (radUnit o.radunit) = true) :
+    ∃ body P W H A,
+      writeBody q o ⟨cs, .ellipse, sky, [c.1, c.2, w, h, a], mt, incl⟩ m = .ok body ∧
+      bodyGeom body = .ok (.ellipse, [P], [W, H], some A) ∧
+      W.v = 2 * (fmtDec o.prec (w / 2)).val ∧ H.v = 2 * (fmtDec o.prec (h / 2)).val ∧
+      A.v = (fmtDec o.prec a).val ∧
+      (OnGrid o.prec (w / 2) → W.v = w) ∧ (OnGrid o.prec (h / 2) → H.v = h) ∧ (OnGrid o.prec a → A.v = a) := by
+  have tq := fun d => toQ_of_unit d (radUnit o.radunit) hu
+  have ta : ∀ d : Dec, Len.toQ ⟨d, .deg⟩ = .ok ⟨d.val, .deg, false⟩ := fun d => rfl
+  have e : a / 2 * 2 = a := by ring
+  refine ⟨.ellipse (Coord.dec (fmtDec o.prec c.1) (cuOf q o), Coord.dec (fmtDec o.prec c.2) (cuOf q o))
+      ⟨fmtDec o.prec (h / 2), radUnit o.radunit⟩ ⟨fmtDec o.prec (w / 2), radUnit o.radunit⟩
+      ⟨fmtDec o.prec (a / 2 * 2), .deg⟩, (cQ q o c.1, cQ q o c.2),
+    Q.scale 2 ⟨(fmtDec o.prec (w / 2)).val, luU (radUnit o.radunit), false⟩,
+    Q.scale 2 ⟨(fmtDec o.prec (h / 2)).val, luU (radUnit o.radunit), false⟩,
+    Q.scale (1 / 2) (Q.scale 2 ⟨(fmtDec o.prec (a / 2 * 2)).val, .deg, false⟩), ?_, ?_, ?_, ?_, ?_, ?_, ?_, ?_⟩
+  · simp only [writeBody]; rfl
+  · simp [bodyGeom, tq, ta, bind, Except.bind, pure, Except.pure, ptQ, cQ]
+  · simp only [Q.scale]; ring
+  · simp only [Q.scale]; ring
+  · simp only [Q.scale, e]; ring
+  · rintro ⟨n, hn⟩; simp only [Q.scale]; rw [fmtDec_grid o.prec (w / 2) n hn]; ring
+  · rintro ⟨n, hn⟩; simp only [Q.scale]; rw [fmtDec_grid o.prec (h / 2) n hn]; ring
+  · rintro ⟨n, hn⟩; simp only [Q.scale, e]; rw [fmtDec_grid o.prec a n hn]; ring
+
+/-! ## 9. the current code refutes the full-strength round trip (one witness per finding) -/
+
+/-- success of serialise-then-parse, as a Boolean of the executable model. -/
+def rtOK (q : Quirks) (o : Opts) (rs : List WReg) : Bool :=
+  match serialize q o rs with
+  | .ok ls => (match parse q id ls with | .ok _ => true | .error _ => false)
+  | .error _ => false
+
+theorem rtOK_of_full (q : Quirks) (o : Opts) (rs : List WReg)
+    (h : ∃ ls gs, serialize q o rs = .ok ls ∧ parse q id ls = .ok gs ∧ List.Forall₂ (RT q o) rs gs) :
+    rtOK q o rs = true := by
+  obtain ⟨ls, gs, h1, h2, -⟩ := h
+  unfold rtOK; rw [h1]; simp only; rw [h2]
+
+def skyOpts : Opts := ⟨"fk5", 6, "deg"⟩
+def pointNoSymbol : WReg :=
+  { kind := .point, sky := true, pts := [(10, 20)], sizes := [], angle := none, text := "", mt := [], vis := [] }
+def pixelPolygon : WReg :=
+  { kind := .polygon, sky := false, pts := [(1, 4), (2, 5), (7/2, 7)], sizes := [], angle := none, text := "",
+    mt := [], vis := [] }
+def skyEllipse : WReg :=
+  { kind := .ellipse, sky := true, pts := [(10, 20)], sizes := [1/2, 1/4], angle := some 30, text := "",
+    mt := [], vis := [] }
+
+/-- F20: `PointSkyRegion` without `symbol` is written as `point[[…]]`, which the reader rejects. -/
+theorem crtf_roundtrip_refuted_F20 : ¬ crtf_roundtrip_full Quirks.current := by
+  intro h
+  have := rtOK_of_full _ _ _ (h skyOpts [pointNoSymbol] (by decide +kernel) (by decide +kernel))
+  revert this; decide +kernel
+
+/-- F21: a pixel polygon is written with `deg` on its coordinates, which the reader cannot
+turn into pixel coordinates. -/
+theorem crtf_roundtrip_refuted_F21 : ¬ crtf_roundtrip_full Quirks.current := by
+  intro h
+  have := rtOK_of_full _ _ _ (h ⟨"image", 6, "deg"⟩ [pixelPolygon] (by decide +kernel) (by decide +kernel))
+  revert this; decide +kernel
+
+/-- F33: with `radunit='arcsec'` the two semi-axes are written as `[450.000", 900.000"]`, which
+the reader's coordinate regex does not accept. -/
+theorem crtf_roundtrip_refuted_F33 : ¬ crtf_roundtrip_full Quirks.current := by
+  intro h
+  have := rtOK_of_full _ _ _ (h ⟨"fk5", 3, "arcsec"⟩ [skyEllipse] (by decide +kernel) (by decide +kernel))
+  revert this; decide +kernel
+
+/-- the witnesses are representable, and `Good` (so covered by `crtf_roundtrip_partial`) as soon
+as their own defect is repaired; an ordinary region is `Good` under the current code. -/
+example : Good { Quirks.current with pointUnreadable := false } skyOpts pointNoSymbol := by decide +kernel
+example : Good { Quirks.current with pixAsDeg := false } ⟨"image", 6, "deg"⟩ pixelPolygon := by decide +kernel
+example : Good { Quirks.current with quotePairUnreadable := false } ⟨"fk5", 3, "arcsec"⟩ skyEllipse := by
+  decide +kernel
+example : Good Quirks.current skyOpts skyEllipse := by decide +kernel
+example : optsOK skyOpts := by decide +kernel
+
+/-- F19 (a limit the partial theorem states as a hypothesis): a radius below half a unit of
+the precision is printed as `0.000` and the reader rejects a non-positive size. -/
+example : rtOK Quirks.fixed ⟨"fk5", 3, "deg"⟩
+    [{ kind := .circle, sky := true, pts := [(10, 20)], sizes := [1/4000], angle := none, text := "",
+       mt := [], vis := [] }] = false := by decide +kernel
+
+/-- F31: `labelcolor` is in the reader's vocabulary but not in the writer's: it does not
+survive (the `scalar` clause of `RT` covers it only once the writer knows the key). -/
+example : scalarKey Quirks.current .labelcolor = false ∧ scalarKey Quirks.fixed .labelcolor = true := by decide
 
 end RegionsVerif.Props.C11
